@@ -3,6 +3,9 @@
      norm_text_idempotent   : wf_text s = true -> norm_text (norm_text s) = norm_text s /\ wf_text (norm_text s) = true
      second_text_rendering  : wf_text s = true -> print_schema (norm_text s) = print_schema s
    The lexer lemmas ([rd], the token reader as a function of the unread input) are in SchemaTextProofs1.v.
+   The printer writes a built-in type name as __cedar::Name when the schema declares a type of that name (shadowed_builtins);
+   norm_text follows it, the parser lemmas are proved for an arbitrary set [sh] of built-in names (Section WithShadowed), and
+   Part 2 (resolve_norm_text_names') needs no hypothesis on the declared names any more.
 
    Shape of the parser lemmas.  The parser state holds ONE token of lookahead, so parsing the text [X ++ rest] of a construct
    needs the first token of [rest] to be readable; every lemma has the form
@@ -97,37 +100,55 @@ Definition wf_text (s : x_schema) : bool :=
 (* ------------------------------------------------------------------------------------------ *)
 (* What comes back: norm_text                                                                  *)
 (* ------------------------------------------------------------------------------------------ *)
-(* the parser does not classify type names: every name is an ast.TypeRef *)
-Fixpoint norm_ty (t : xty) : xty :=
+(* the parser does not classify type names: every name is an ast.TypeRef; a built-in name comes back as it was written,
+   i.e. with the __cedar:: prefix when the schema declares a type of that name ([sh] = shadowedBuiltins) *)
+Fixpoint norm_ty (sh : str -> bool) (t : xty) : xty :=
   match t with
-  | XString => XRef (s_of "String")
-  | XLong => XRef (s_of "Long")
-  | XBool => XRef (s_of "Bool")
-  | XExt n => XRef n
+  | XString => XRef (write_builtin sh (s_of "String"))
+  | XLong => XRef (write_builtin sh (s_of "Long"))
+  | XBool => XRef (write_builtin sh (s_of "Bool"))
+  | XExt n => XRef (write_builtin sh n)
   | XEnt r => XRef r
   | XRef r => XRef r
-  | XSet e => XSet (norm_ty e)
+  | XSet e => XSet (norm_ty sh e)
   | XRec fs => XRec ((fix go (l : xrec) : xrec :=
-                        match l with [] => [] | x :: r => (fst x, (norm_ty (fst (fst (snd x))), snd (fst (snd x)), snd (snd x))) :: go r end) fs)
+                        match l with [] => [] | x :: r => (fst x, (norm_ty sh (fst (fst (snd x))), snd (fst (snd x)), snd (snd x))) :: go r end) fs)
   end.
-Definition norm_attr (a : xattr) : xattr := (norm_ty (fst (fst a)), snd (fst a), snd a).
-Lemma norm_ty_rec fs : norm_ty (XRec fs) = XRec (mapv norm_attr fs).
+Definition norm_attr (sh : str -> bool) (a : xattr) : xattr := (norm_ty sh (fst (fst a)), snd (fst a), snd a).
+Lemma norm_ty_rec sh fs : norm_ty sh (XRec fs) = XRec (mapv (norm_attr sh) fs).
 Proof. reflexivity. Qed.
-Definition norm_rec (fs : xrec) : xrec := mapv norm_attr fs.
+Definition norm_rec (sh : str -> bool) (fs : xrec) : xrec := mapv (norm_attr sh) fs.
 
-Definition norm_entity_t (e : x_entity) : x_entity :=
-  {| xe_annots := xe_annots e; xe_parents := xe_parents e; xe_shape := option_map norm_rec (xe_shape e);
-     xe_tags := option_map norm_ty (xe_tags e) |}.
-Definition norm_common_t (c : x_common) : x_common := {| xc_annots := xc_annots c; xc_type := norm_ty (xc_type c) |}.
-Definition norm_applies_t (a : x_applies) : x_applies :=
-  {| xa_principals := xa_principals a; xa_resources := xa_resources a; xa_context := option_map norm_ty (xa_context a) |}.
-Definition norm_action_t (a : x_action) : x_action :=
-  {| xac_annots := xac_annots a; xac_parents := xac_parents a; xac_applies := option_map norm_applies_t (xac_applies a) |}.
-Definition norm_ns_t (n : x_ns) : x_ns :=
-  {| xs_annots := xs_annots n; xs_entities := mapv norm_entity_t (xs_entities n); xs_enums := xs_enums n;
-     xs_commons := mapv norm_common_t (xs_commons n); xs_actions := mapv norm_action_t (xs_actions n) |}.
+Definition norm_entity_t (sh : str -> bool) (e : x_entity) : x_entity :=
+  {| xe_annots := xe_annots e; xe_parents := xe_parents e; xe_shape := option_map (norm_rec sh) (xe_shape e);
+     xe_tags := option_map (norm_ty sh) (xe_tags e) |}.
+Definition norm_common_t (sh : str -> bool) (c : x_common) : x_common := {| xc_annots := xc_annots c; xc_type := norm_ty sh (xc_type c) |}.
+Definition norm_applies_t (sh : str -> bool) (a : x_applies) : x_applies :=
+  {| xa_principals := xa_principals a; xa_resources := xa_resources a; xa_context := option_map (norm_ty sh) (xa_context a) |}.
+Definition norm_action_t (sh : str -> bool) (a : x_action) : x_action :=
+  {| xac_annots := xac_annots a; xac_parents := xac_parents a; xac_applies := option_map (norm_applies_t sh) (xac_applies a) |}.
+Definition norm_ns_t (sh : str -> bool) (n : x_ns) : x_ns :=
+  {| xs_annots := xs_annots n; xs_entities := mapv (norm_entity_t sh) (xs_entities n); xs_enums := xs_enums n;
+     xs_commons := mapv (norm_common_t sh) (xs_commons n); xs_actions := mapv (norm_action_t sh) (xs_actions n) |}.
 (* the bare declarations are listed only when there are any (ns_keep, as for the JSON codec) *)
-Definition norm_text (s : x_schema) : x_schema := mapv norm_ns_t (filter ns_keep s).
+Definition norm_text (s : x_schema) : x_schema := mapv (norm_ns_t (shadowed_builtins s)) (filter ns_keep s).
+
+(* the built-in names the printer may prefix *)
+Definition is_builtin_name (n : str) : bool := existsb (fun b => str_eqb (s_of b) n) builtin_type_names.
+Lemma shadowed_builtin : forall m n, shadowed_builtins m n = true -> is_builtin_name n = true.
+Proof. intros m n H. unfold shadowed_builtins in H. apply andb_true_iff in H. destruct H as [H _]. exact H. Qed.
+Lemma builtin_name_cases : forall n (P : str -> Prop), is_builtin_name n = true ->
+  P (s_of "String") -> P (s_of "Long") -> P (s_of "Bool") -> P (s_of "ipaddr") -> P (s_of "decimal") -> P (s_of "datetime") -> P (s_of "duration") -> P n.
+Proof.
+  intros n P H. unfold is_builtin_name, builtin_type_names in H. cbn [existsb] in H. intros.
+  repeat (apply orb_true_iff in H; destruct H as [H|H]); try discriminate; apply str_eqb_eq in H; subst n; assumption.
+Qed.
+Lemma type_path_wb : forall sh name, (forall n, sh n = true -> is_builtin_name n = true) -> type_path name = true ->
+  type_path (write_builtin sh name) = true.
+Proof.
+  intros sh name Hsh Hp. unfold write_builtin. destruct (sh name) eqn:E; [|exact Hp].
+  apply (builtin_name_cases name (fun n => type_path (s_of "__cedar::" ++ n) = true) (Hsh _ E)); reflexivity.
+Qed.
 
 (* ------------------------------------------------------------------------------------------ *)
 (* Tactics and small helpers                                                                   *)
@@ -457,6 +478,11 @@ Proof.
       cbn [enum_values_loop]. sst. rewrite rd_comma. sst. rewrite rd_sp, Hrd2. sst. rewrite Hp2, <- app_assoc. reflexivity.
 Qed.
 
+Section WithShadowed.
+(* [sh] = the printer's set of shadowed built-in names; all that matters below is that it only holds built-in names *)
+Variable sh : str -> bool.
+Hypothesis Hsh : forall n, sh n = true -> is_builtin_name n = true.
+
 (* ------------------------------------------------------------------------------------------ *)
 (* Types                                                                                       *)
 (* ------------------------------------------------------------------------------------------ *)
@@ -465,13 +491,13 @@ Fixpoint pf (ind : nat) (l : xrec) : str :=
   match l with
   | [] => []
   | x :: r => pa ind (snd (snd x)) ++ tabs ind ++ print_name (fst x) ++ (if snd (fst (snd x)) then [63] else []) ++ [58; 32]
-              ++ print_type (fst (fst (snd x))) ind ++ (match r with [] => [] | _ => [44] end) ++ [10] ++ pf ind r
+              ++ print_type sh (fst (fst (snd x))) ind ++ (match r with [] => [] | _ => [44] end) ++ [10] ++ pf ind r
   end.
 
 Definition pgo (fs : xrec) : list (str * ((nat -> str) * bool * annots)) :=
-  map (fun x : str * xattr => (fst x, (print_type (fst (fst (snd x))), snd (fst (snd x)), snd (snd x)))) fs.
+  map (fun x : str * xattr => (fst x, (print_type sh (fst (fst (snd x))), snd (fst (snd x)), snd (snd x)))) fs.
 
-Lemma print_type_rec_pgo : forall fs ind, print_type (XRec fs) ind = print_record ind (rec_of_list (pgo fs)).
+Lemma print_type_rec_pgo : forall fs ind, print_type sh (XRec fs) ind = print_record ind (rec_of_list (pgo fs)).
 Proof.
   intros fs ind. cbn [print_type]. f_equal. f_equal.
   induction fs as [|[key [[ty opt] an]] fs IH]; [reflexivity|]. cbn [pgo map fst snd]. rewrite IH. reflexivity.
@@ -487,7 +513,7 @@ Proof.
 Qed.
 
 Lemma print_type_rec_eq : forall fs ind, wf_tty (XRec fs) = true ->
-  print_type (XRec fs) ind = 123 :: (match fs with [] => [] | _ => 10 :: pf (S ind) fs ++ tabs ind end) ++ [125].
+  print_type sh (XRec fs) ind = 123 :: (match fs with [] => [] | _ => 10 :: pf (S ind) fs ++ tabs ind end) ++ [125].
 Proof.
   intros fs ind H. rewrite wf_tty_rec in H. apply andb_true_iff in H. destruct H as [Hs Hall].
   rewrite print_type_rec_pgo. rewrite sj_rec_id.
@@ -498,14 +524,14 @@ Qed.
 
 Definition PT (t : xty) : Prop :=
   forall ind fuel rest st', wf_tty t = true -> stopb rest = true -> rd rest = SOk st' -> is st' KDoubleColon = false ->
-  (2 * length (print_type t ind ++ rest) + 4 <= fuel)%nat ->
-  exists st, rd (print_type t ind ++ rest) = SOk st /\ parse_type fuel st = SOk (norm_ty t, st').
+  (2 * length (print_type sh t ind ++ rest) + 4 <= fuel)%nat ->
+  exists st, rd (print_type sh t ind ++ rest) = SOk st /\ parse_type fuel st = SOk (norm_ty sh t, st').
 
 Lemma annots_ok_inv : forall an, annots_ok an = true -> keys_sorted an = true /\ forallb annot_ok an = true.
 Proof. intros an H. unfold annots_ok in H. apply andb_true_iff in H. exact H. Qed.
 
 Lemma insert_norm_last : forall pre key (a : xattr), keys_sorted (pre ++ [(key, a)]) = true ->
-  rec_insert key (norm_attr a) (mapv norm_attr pre) = mapv norm_attr (pre ++ [(key, a)]).
+  rec_insert key (norm_attr sh a) (mapv (norm_attr sh) pre) = mapv (norm_attr sh) (pre ++ [(key, a)]).
 Proof.
   intros pre key a Hs. unfold mapv at 2. rewrite map_app. cbn [map fst snd]. apply vj_insert_last.
   rewrite (vj_keys_sorted_ext _ (pre ++ [(key, a)])); [exact Hs|].
@@ -516,7 +542,7 @@ Lemma record_loop_lemma : forall l pre ind0 ind fuel rest st',
   Forall (fun kv : str * xattr => PT (fst (fst (snd kv)))) l -> keys_sorted (pre ++ l) = true -> forallb wf_tattr l = true ->
   rd rest = SOk st' -> (2 * length (pf ind l ++ tabs ind0 ++ 125%Z :: rest) + 3 <= fuel)%nat ->
   exists st, rd (pf ind l ++ tabs ind0 ++ 125 :: rest) = SOk st
-             /\ record_loop fuel (mapv norm_attr pre) st = SOk (mapv norm_attr (pre ++ l), st')
+             /\ record_loop fuel (mapv (norm_attr sh) pre) st = SOk (mapv (norm_attr sh) (pre ++ l), st')
              /\ In (tk st) [KRBrace; KAt; KIdent; KString].
 Proof.
   induction l as [|x l IH]; intros pre ind0 ind fuel rest st' HF Hs Hwf Hrd Hf.
@@ -529,7 +555,7 @@ Proof.
     destruct fuel as [|f]; [exfalso; flen|].
     set (tail := pf ind l ++ tabs ind0 ++ 125 :: rest) in *.
     set (rest_ty := (match l with [] => [] | _ => [44] end) ++ 10 :: tail).
-    set (rest_name := (if opt then [63] else []) ++ 58 :: 32 :: print_type ty ind ++ rest_ty).
+    set (rest_name := (if opt then [63] else []) ++ 58 :: 32 :: print_type sh ty ind ++ rest_ty).
     assert (Htext : pf ind ((key, (ty, opt, an)) :: l) ++ tabs ind0 ++ 125 :: rest = pa ind an ++ tabs ind ++ print_name key ++ rest_name).
     { cbn [pf fst snd]. rewrite <- !app_assoc. reflexivity. }
     rewrite Htext in Hf |- *.
@@ -568,15 +594,15 @@ Proof.
     destruct (if is st_q KQuestion then st3 <- read_token st_q;; SOk (true, st3) else SOk (false, st_q)) as [[o st3]| | |]; cbn [sbind]; try discriminate.
     destruct (is st3 KColon); [|discriminate]. destruct (read_token st3) as [st4| | |]; cbn [sbind]; try discriminate.
     intros Hfrag. inversion Hfrag; subst o st4. rewrite Hp_ty. cbn [sbind]. rewrite Hoc. cbn [sbind].
-    change (norm_ty ty, opt, an) with (norm_attr (ty, opt, an)).
+    change (norm_ty sh ty, opt, an) with (norm_attr sh (ty, opt, an)).
     rewrite insert_norm_last by (eapply vj_sorted_app_l; exact Hs').
     rewrite Hp_next, <- app_assoc. reflexivity.
 Qed.
 
 Lemma record_lemma : forall fs ind fuel rest st',
   Forall (fun kv : str * xattr => PT (fst (fst (snd kv)))) fs -> wf_tty (XRec fs) = true -> rd rest = SOk st' ->
-  (2 * length (print_type (XRec fs) ind ++ rest) + 3 <= fuel)%nat ->
-  exists st, rd (print_type (XRec fs) ind ++ rest) = SOk st /\ parse_record_type fuel st = SOk (norm_rec fs, st') /\ tk st = KLBrace.
+  (2 * length (print_type sh (XRec fs) ind ++ rest) + 3 <= fuel)%nat ->
+  exists st, rd (print_type sh (XRec fs) ind ++ rest) = SOk st /\ parse_record_type fuel st = SOk (norm_rec sh fs, st') /\ tk st = KLBrace.
 Proof.
   intros fs ind fuel rest st' HF Hwf Hrd Hf. rewrite (print_type_rec_eq fs ind Hwf) in Hf |- *.
   rewrite wf_tty_rec in Hwf. apply andb_true_iff in Hwf. destruct Hwf as [Hs Hall].
@@ -606,10 +632,10 @@ Qed.
 Theorem type_lemma : forall t, PT t.
 Proof.
   induction t as [| | |n|e IHe|fs IHfs|r|r] using xty_ind'; unfold PT; intros ind fuel rest st' Hwf Hstop Hrd Hnd Hf.
-  - apply (type_ref_lemma (s_of "String")); try assumption; reflexivity.
-  - apply (type_ref_lemma (s_of "Long")); try assumption; reflexivity.
-  - apply (type_ref_lemma (s_of "Bool")); try assumption; reflexivity.
-  - apply (type_ref_lemma n); assumption.
+  - apply (type_ref_lemma (write_builtin sh (s_of "String"))); try assumption. apply type_path_wb; [exact Hsh|reflexivity].
+  - apply (type_ref_lemma (write_builtin sh (s_of "Long"))); try assumption. apply type_path_wb; [exact Hsh|reflexivity].
+  - apply (type_ref_lemma (write_builtin sh (s_of "Bool"))); try assumption. apply type_path_wb; [exact Hsh|reflexivity].
+  - apply (type_ref_lemma (write_builtin sh n)); try assumption. apply type_path_wb; [exact Hsh|exact Hwf].
   - cbn [wf_tty print_type norm_ty] in *.
     change (s_of "Set<") with (s_of "Set" ++ [60]) in Hf |- *. rewrite <- !app_assoc in Hf |- *. cbn [app] in Hf |- *.
     destruct fuel as [|f]; [exfalso; flen|].
@@ -625,8 +651,8 @@ Proof.
 Qed.
 
 Lemma record_lemma' : forall fs ind fuel rest st', wf_tty (XRec fs) = true -> rd rest = SOk st' ->
-  (2 * length (print_type (XRec fs) ind ++ rest) + 3 <= fuel)%nat ->
-  exists st, rd (print_type (XRec fs) ind ++ rest) = SOk st /\ parse_record_type fuel st = SOk (norm_rec fs, st') /\ tk st = KLBrace.
+  (2 * length (print_type sh (XRec fs) ind ++ rest) + 3 <= fuel)%nat ->
+  exists st, rd (print_type sh (XRec fs) ind ++ rest) = SOk st /\ parse_record_type fuel st = SOk (norm_rec sh fs, st') /\ tk st = KLBrace.
 Proof.
   intros fs ind fuel rest st' Hwf Hrd Hf. apply record_lemma; try assumption.
   apply Forall_forall. intros kv _. apply type_lemma.
@@ -638,9 +664,9 @@ Qed.
 Lemma common_decl : forall ind name t an n fuel rest st',
   is_valid_ident name = true -> is_reserved_type_name name = false -> wf_tty t = true ->
   has_key name (xs_commons n) = false -> rd rest = SOk st' ->
-  (2 * length (name ++ 32%Z :: 61%Z :: 32%Z :: print_type t ind ++ 59%Z :: 10%Z :: rest) + 6 <= fuel)%nat ->
-  parse_decl fuel an n (MkSt (mk_tok KIdent (s_of "type")) (32 :: name ++ 32 :: 61 :: 32 :: print_type t ind ++ 59 :: 10 :: rest))
-  = SOk (set_commons n (rec_insert name {| xc_annots := an; xc_type := norm_ty t |} (xs_commons n)), st').
+  (2 * length (name ++ 32%Z :: 61%Z :: 32%Z :: print_type sh t ind ++ 59%Z :: 10%Z :: rest) + 6 <= fuel)%nat ->
+  parse_decl fuel an n (MkSt (mk_tok KIdent (s_of "type")) (32 :: name ++ 32 :: 61 :: 32 :: print_type sh t ind ++ 59 :: 10 :: rest))
+  = SOk (set_commons n (rec_insert name {| xc_annots := an; xc_type := norm_ty sh t |} (xs_commons n)), st').
 Proof.
   intros ind name t an n fuel rest st' Hname Hrtn Hwf Hhk Hrd Hf. destruct (valid_ident_word name Hname) as [Hw Hres].
   destruct (type_lemma t ind fuel (59 :: 10 :: rest) (MkSt (mk_tok KSemicolon [59]) (10 :: rest)) Hwf eq_refl (rd_semi _) eq_refl ltac:(flen))
@@ -702,16 +728,16 @@ Lemma F3_lbrace : forall st, F3 st -> is st KLBrace = false.
 Proof. intros st H. ftk2 H. Qed.
 
 Definition tags_text (ind : nat) (tags : option xty) : str :=
-  match tags with None => [] | Some t => s_of " tags " ++ print_type t ind end.
+  match tags with None => [] | Some t => s_of " tags " ++ print_type sh t ind end.
 Definition shape_text (ind : nat) (shape : option xrec) : str :=
-  match shape with None => [] | Some fs => [32] ++ print_type (XRec fs) ind end.
+  match shape with None => [] | Some fs => [32] ++ print_type sh (XRec fs) ind end.
 Definition parents_text (parents : list str) : str :=
   match parents with [] => [] | p :: ps => s_of " in " ++ print_list (p :: ps) end.
 
 Lemma frag_tags_lemma : forall tags ind fuel rest, opt_wf_tty tags = true ->
   (2 * length (tags_text ind tags ++ 59%Z :: 10%Z :: rest) + 4 <= fuel)%nat ->
   exists st, rd (tags_text ind tags ++ 59 :: 10 :: rest) = SOk st
-             /\ frag_tags fuel st = SOk (option_map norm_ty tags, MkSt (mk_tok KSemicolon [59]) (10 :: rest)) /\ F3 st.
+             /\ frag_tags fuel st = SOk (option_map (norm_ty sh) tags, MkSt (mk_tok KSemicolon [59]) (10 :: rest)) /\ F3 st.
 Proof.
   intros [t|] ind fuel rest Hwf Hf; cbn [tags_text opt_wf_tty option_map] in *.
   - change (s_of " tags ") with (32 :: s_of "tags" ++ [32]) in Hf |- *. cbn [app] in Hf |- *. rewrite <- !app_assoc in Hf |- *. cbn [app] in Hf |- *.
@@ -724,7 +750,7 @@ Qed.
 
 Lemma frag_shape_lemma : forall shape ind fuel X st3, opt_wf_tty (option_map XRec shape) = true -> rd X = SOk st3 -> F3 st3 ->
   (2 * length (shape_text ind shape ++ X) + 3 <= fuel)%nat ->
-  exists st, rd (shape_text ind shape ++ X) = SOk st /\ frag_shape fuel st = SOk (option_map norm_rec shape, st3) /\ F2 st.
+  exists st, rd (shape_text ind shape ++ X) = SOk st /\ frag_shape fuel st = SOk (option_map (norm_rec sh) shape, st3) /\ F2 st.
 Proof.
   intros [fs|] ind fuel X st3 Hwf HrdX HF Hf; cbn [shape_text opt_wf_tty option_map] in *.
   - rewrite <- app_assoc in Hf |- *. cbn [app] in Hf |- *.
@@ -760,8 +786,8 @@ Lemma entity_decl : forall ind name e an n fuel rest st',
   (2 * length (name ++ parents_text (xe_parents e) ++ shape_text ind (xe_shape e) ++ tags_text ind (xe_tags e) ++ 59%Z :: 10%Z :: rest) + 6 <= fuel)%nat ->
   parse_decl fuel an n (MkSt (mk_tok KIdent (s_of "entity"))
                              (32 :: name ++ parents_text (xe_parents e) ++ shape_text ind (xe_shape e) ++ tags_text ind (xe_tags e) ++ 59 :: 10 :: rest))
-  = SOk (set_entities n (rec_insert name {| xe_annots := an; xe_parents := xe_parents e; xe_shape := option_map norm_rec (xe_shape e);
-                                            xe_tags := option_map norm_ty (xe_tags e) |} (xs_entities n)), st').
+  = SOk (set_entities n (rec_insert name {| xe_annots := an; xe_parents := xe_parents e; xe_shape := option_map (norm_rec sh) (xe_shape e);
+                                            xe_tags := option_map (norm_ty sh) (xe_tags e) |} (xs_entities n)), st').
 Proof.
   intros ind name e an n fuel rest st' Hname Hwf Hhk Hrd Hf. destruct (valid_ident_word name Hname) as [Hw Hres].
   unfold wf_entity_t in Hwf. apply andb_true_iff in Hwf. destruct Hwf as [Hwf Htags]. apply andb_true_iff in Hwf. destruct Hwf as [Hwf Hshape].
@@ -835,18 +861,18 @@ Proof. intros st H. gtk H. Qed.
 Definition aparents_text (l : list (str * str)) : str :=
   match l with [] => [] | p :: ps => s_of " in " ++ print_list (map print_parent_ref (p :: ps)) end.
 Definition applies_opt_text (ind : nat) (o : option x_applies) : str :=
-  match o with None => [] | Some ap => print_applies ind ap end.
+  match o with None => [] | Some ap => print_applies sh ind ap end.
 Definition ctx_text (ind : nat) (c : option xty) : str :=
   match c with
   | None => [10]
-  | Some t => 44 :: 10 :: tabs (S ind) ++ s_of "context" ++ 58 :: 32 :: print_type t (S ind) ++ [10]
+  | Some t => 44 :: 10 :: tabs (S ind) ++ s_of "context" ++ 58 :: 32 :: print_type sh t (S ind) ++ [10]
   end.
 Definition applies_nf (ind : nat) (ps rs : list str) (c : option xty) (X : str) : str :=
   32 :: s_of "appliesTo" ++ 32 :: 123 :: 10 :: tabs (S ind) ++ s_of "principal" ++ 58 :: 32 :: print_list ps
   ++ 44 :: 10 :: tabs (S ind) ++ s_of "resource" ++ 58 :: 32 :: print_list rs ++ ctx_text ind c ++ tabs ind ++ 125 :: X.
 
 Lemma print_applies_nf : forall ind a X, xa_principals a <> [] -> xa_resources a <> [] ->
-  print_applies ind a ++ X = applies_nf ind (xa_principals a) (xa_resources a) (xa_context a) X.
+  print_applies sh ind a ++ X = applies_nf ind (xa_principals a) (xa_resources a) (xa_context a) X.
 Proof.
   intros ind [ps rs c] X Hp Hr. cbn [xa_principals xa_resources xa_context] in *.
   destruct ps as [|p ps]; [contradiction|]. destruct rs as [|r rs]; [contradiction|].
@@ -863,7 +889,7 @@ Proof. intros ind X. rewrite rd_nl, rd_tabs. apply rd_rbrace. Qed.
 Lemma frag_applies_lemma : forall o ind fuel rest, match o with Some a => wf_applies_t a | None => true end = true ->
   (2 * length (applies_opt_text ind o ++ 59%Z :: 10%Z :: rest) + 8 <= fuel)%nat ->
   exists st, rd (applies_opt_text ind o ++ 59 :: 10 :: rest) = SOk st
-             /\ frag_applies fuel st = SOk (option_map norm_applies_t o, MkSt (mk_tok KSemicolon [59]) (10 :: rest)) /\ G2 st.
+             /\ frag_applies fuel st = SOk (option_map (norm_applies_t sh) o, MkSt (mk_tok KSemicolon [59]) (10 :: rest)) /\ G2 st.
 Proof.
   intros [a|] ind fuel rest Hwf Hf; cbn [applies_opt_text option_map] in *.
   2:{ cbn [app]. eexists. split; [apply rd_semi|]. split; [reflexivity|left; reflexivity]. }
@@ -877,7 +903,7 @@ Proof.
   destruct f2 as [|f3]; [exfalso; flen|]. destruct f3 as [|f4]; [exfalso; flen|].
   destruct c as [t|]; cbn [ctx_text opt_wf_tty option_map] in *; tnorm; tnorm_in Hf.
   - set (T3 := 10 :: tabs ind ++ 125 :: 59 :: 10 :: rest) in *.
-    set (T2 := 44 :: 10 :: tabs (S ind) ++ s_of "context" ++ 58 :: 32 :: print_type t (S ind) ++ T3) in *.
+    set (T2 := 44 :: 10 :: tabs (S ind) ++ s_of "context" ++ 58 :: 32 :: print_type sh t (S ind) ++ T3) in *.
     set (T1 := 44 :: 10 :: tabs (S ind) ++ s_of "resource" ++ 58 :: 32 :: print_list (r :: rs) ++ T2) in *.
     destruct (type_lemma t (S ind) (S f4) T3 _ Hc eq_refl (rd_close _ _) eq_refl ltac:(subst T1 T2 T3; flen)) as (st_t & Hrd_t & Hp_t).
     destruct (entity_types_lemma (r :: rs) (S (S f4)) T2 _ ltac:(discriminate) Hrs eq_refl (rd_comma _) eq_refl ltac:(subst T1 T2 T3; flen))
@@ -932,7 +958,7 @@ Lemma action_decl : forall ind key a an n fuel rest st',
   (2 * length (print_name key ++ aparents_text (xac_parents a) ++ applies_opt_text ind (xac_applies a) ++ 59%Z :: 10%Z :: rest) + 10 <= fuel)%nat ->
   parse_decl fuel an n (MkSt (mk_tok KIdent (s_of "action"))
                              (32 :: print_name key ++ aparents_text (xac_parents a) ++ applies_opt_text ind (xac_applies a) ++ 59 :: 10 :: rest))
-  = SOk (set_actions n (rec_insert key {| xac_annots := an; xac_parents := xac_parents a; xac_applies := option_map norm_applies_t (xac_applies a) |}
+  = SOk (set_actions n (rec_insert key {| xac_annots := an; xac_parents := xac_parents a; xac_applies := option_map (norm_applies_t sh) (xac_applies a) |}
                                    (xs_actions n)), st').
 Proof.
   intros ind key a an n fuel rest st' Hkey Hwf Hhk Hrd Hf.
@@ -954,7 +980,7 @@ Inductive ditem := DC (kv : str * x_common) | DE (kv : str * x_entity) | DN (kv 
 
 Definition print_item (ind : nat) (it : ditem) : str :=
   match it with
-  | DC kv => print_common ind kv | DE kv => print_entity ind kv | DN kv => print_enum ind kv | DA kv => print_action ind kv
+  | DC kv => print_common sh ind kv | DE kv => print_entity sh ind kv | DN kv => print_enum ind kv | DA kv => print_action sh ind kv
   end.
 Definition wf_item (it : ditem) : bool :=
   match it with
@@ -972,10 +998,10 @@ Definition fresh_item (it : ditem) (n : x_ns) : bool :=
   end.
 Definition add_item (it : ditem) (n : x_ns) : x_ns :=
   match it with
-  | DC kv => set_commons n (rec_insert (fst kv) (norm_common_t (snd kv)) (xs_commons n))
-  | DE kv => set_entities n (rec_insert (fst kv) (norm_entity_t (snd kv)) (xs_entities n))
+  | DC kv => set_commons n (rec_insert (fst kv) (norm_common_t sh (snd kv)) (xs_commons n))
+  | DE kv => set_entities n (rec_insert (fst kv) (norm_entity_t sh (snd kv)) (xs_entities n))
   | DN kv => set_enums n (rec_insert (fst kv) (snd kv) (xs_enums n))
-  | DA kv => set_actions n (rec_insert (fst kv) (norm_action_t (snd kv)) (xs_actions n))
+  | DA kv => set_actions n (rec_insert (fst kv) (norm_action_t sh (snd kv)) (xs_actions n))
   end.
 
 Lemma decl_wrap : forall an ind (kwd : string) body fuel, annots_ok an = true -> word (s_of kwd) = true ->
@@ -991,15 +1017,15 @@ Proof.
 Qed.
 
 Lemma common_text : forall ind kv rest, keys_sorted (xc_annots (snd kv)) = true ->
-  print_common ind kv ++ rest
-  = pa ind (xc_annots (snd kv)) ++ tabs ind ++ s_of "type" ++ 32 :: fst kv ++ 32 :: 61 :: 32 :: print_type (xc_type (snd kv)) ind ++ 59 :: 10 :: rest.
+  print_common sh ind kv ++ rest
+  = pa ind (xc_annots (snd kv)) ++ tabs ind ++ s_of "type" ++ 32 :: fst kv ++ 32 :: 61 :: 32 :: print_type sh (xc_type (snd kv)) ind ++ 59 :: 10 :: rest.
 Proof.
   intros ind kv rest Hs. unfold print_common. rewrite (print_annotations_sorted _ _ Hs).
   change (s_of "type ") with (s_of "type" ++ [32]). tnorm. reflexivity.
 Qed.
 
 Lemma entity_text : forall ind kv rest, keys_sorted (xe_annots (snd kv)) = true ->
-  print_entity ind kv ++ rest
+  print_entity sh ind kv ++ rest
   = pa ind (xe_annots (snd kv)) ++ tabs ind ++ s_of "entity" ++ 32 :: fst kv ++ parents_text (xe_parents (snd kv))
     ++ shape_text ind (xe_shape (snd kv)) ++ tags_text ind (xe_tags (snd kv)) ++ 59 :: 10 :: rest.
 Proof.
@@ -1017,7 +1043,7 @@ Proof.
 Qed.
 
 Lemma action_text : forall ind kv rest, keys_sorted (xac_annots (snd kv)) = true ->
-  print_action ind kv ++ rest
+  print_action sh ind kv ++ rest
   = pa ind (xac_annots (snd kv)) ++ tabs ind ++ s_of "action" ++ 32 :: print_name (fst kv) ++ aparents_text (xac_parents (snd kv))
     ++ applies_opt_text ind (xac_applies (snd kv)) ++ 59 :: 10 :: rest.
 Proof.
@@ -1146,14 +1172,14 @@ Lemma sorted_snoc : forall (A : Type) (pre : list (str * A)) kv l, keys_sorted (
 Proof. intros A pre kv l H. apply (vj_sorted_app_l (pre ++ [kv]) l). rewrite <- app_assoc. exact H. Qed.
 
 Lemma phase_commons : forall l pre es ens acts, keys_sorted (pre ++ l) = true ->
-  fresh_chain (map DC l) (nsacc (mapv norm_common_t pre) es ens acts)
-  /\ add_items (map DC l) (nsacc (mapv norm_common_t pre) es ens acts) = nsacc (mapv norm_common_t (pre ++ l)) es ens acts.
+  fresh_chain (map DC l) (nsacc (mapv (norm_common_t sh) pre) es ens acts)
+  /\ add_items (map DC l) (nsacc (mapv (norm_common_t sh) pre) es ens acts) = nsacc (mapv (norm_common_t sh) (pre ++ l)) es ens acts.
 Proof.
   induction l as [|[k v] l IH]; intros pre es ens acts Hs.
   - rewrite app_nil_r. split; [exact I|reflexivity].
   - pose proof (sorted_snoc _ _ _ _ Hs) as Hs1.
     cbn [map fresh_chain add_items fold_left]. fold (add_items (map DC l)).
-    assert (E : add_item (DC (k, v)) (nsacc (mapv norm_common_t pre) es ens acts) = nsacc (mapv norm_common_t (pre ++ [(k, v)])) es ens acts).
+    assert (E : add_item (DC (k, v)) (nsacc (mapv (norm_common_t sh) pre) es ens acts) = nsacc (mapv (norm_common_t sh) (pre ++ [(k, v)])) es ens acts).
     { unfold add_item, set_commons, nsacc. cbn [fst snd xs_annots xs_entities xs_enums xs_commons xs_actions].
       rewrite insert_mapv_last by exact Hs1. reflexivity. }
     rewrite E. destruct (IH (pre ++ [(k, v)]) es ens acts ltac:(rewrite <- app_assoc; exact Hs)) as [IH1 IH2].
@@ -1163,14 +1189,14 @@ Qed.
 
 Lemma phase_entities : forall l pre cs ens acts, keys_sorted (pre ++ l) = true ->
   (forall kv, In kv l -> has_key (fst kv) ens = false) ->
-  fresh_chain (map DE l) (nsacc cs (mapv norm_entity_t pre) ens acts)
-  /\ add_items (map DE l) (nsacc cs (mapv norm_entity_t pre) ens acts) = nsacc cs (mapv norm_entity_t (pre ++ l)) ens acts.
+  fresh_chain (map DE l) (nsacc cs (mapv (norm_entity_t sh) pre) ens acts)
+  /\ add_items (map DE l) (nsacc cs (mapv (norm_entity_t sh) pre) ens acts) = nsacc cs (mapv (norm_entity_t sh) (pre ++ l)) ens acts.
 Proof.
   induction l as [|[k v] l IH]; intros pre cs ens acts Hs Hd.
   - rewrite app_nil_r. split; [exact I|reflexivity].
   - pose proof (sorted_snoc _ _ _ _ Hs) as Hs1.
     cbn [map fresh_chain add_items fold_left]. fold (add_items (map DE l)).
-    assert (E : add_item (DE (k, v)) (nsacc cs (mapv norm_entity_t pre) ens acts) = nsacc cs (mapv norm_entity_t (pre ++ [(k, v)])) ens acts).
+    assert (E : add_item (DE (k, v)) (nsacc cs (mapv (norm_entity_t sh) pre) ens acts) = nsacc cs (mapv (norm_entity_t sh) (pre ++ [(k, v)])) ens acts).
     { unfold add_item, set_entities, nsacc. cbn [fst snd xs_annots xs_entities xs_enums xs_commons xs_actions].
       rewrite insert_mapv_last by exact Hs1. reflexivity. }
     rewrite E. destruct (IH (pre ++ [(k, v)]) cs ens acts ltac:(rewrite <- app_assoc; exact Hs) ltac:(intros kv Hkv; apply Hd; right; exact Hkv)) as [IH1 IH2].
@@ -1198,14 +1224,14 @@ Proof.
 Qed.
 
 Lemma phase_actions : forall l pre cs es ens, keys_sorted (pre ++ l) = true ->
-  fresh_chain (map DA l) (nsacc cs es ens (mapv norm_action_t pre))
-  /\ add_items (map DA l) (nsacc cs es ens (mapv norm_action_t pre)) = nsacc cs es ens (mapv norm_action_t (pre ++ l)).
+  fresh_chain (map DA l) (nsacc cs es ens (mapv (norm_action_t sh) pre))
+  /\ add_items (map DA l) (nsacc cs es ens (mapv (norm_action_t sh) pre)) = nsacc cs es ens (mapv (norm_action_t sh) (pre ++ l)).
 Proof.
   induction l as [|[k v] l IH]; intros pre cs es ens Hs.
   - rewrite app_nil_r. split; [exact I|reflexivity].
   - pose proof (sorted_snoc _ _ _ _ Hs) as Hs1.
     cbn [map fresh_chain add_items fold_left]. fold (add_items (map DA l)).
-    assert (E : add_item (DA (k, v)) (nsacc cs es ens (mapv norm_action_t pre)) = nsacc cs es ens (mapv norm_action_t (pre ++ [(k, v)]))).
+    assert (E : add_item (DA (k, v)) (nsacc cs es ens (mapv (norm_action_t sh) pre)) = nsacc cs es ens (mapv (norm_action_t sh) (pre ++ [(k, v)]))).
     { unfold add_item, set_actions, nsacc. cbn [fst snd xs_annots xs_entities xs_enums xs_commons xs_actions].
       rewrite insert_mapv_last by exact Hs1. reflexivity. }
     rewrite E. destruct (IH (pre ++ [(k, v)]) cs es ens ltac:(rewrite <- app_assoc; exact Hs)) as [IH1 IH2].
@@ -1233,23 +1259,23 @@ Proof.
 Qed.
 
 Lemma items_fold : forall n, wf_ns_t n = true ->
-  fresh_chain (items_of n) empty_ns /\ add_items (items_of n) empty_ns = set_annots (norm_ns_t n) [].
+  fresh_chain (items_of n) empty_ns /\ add_items (items_of n) empty_ns = set_annots (norm_ns_t sh n) [].
 Proof.
   intros n Hwf. apply wf_ns_t_iff in Hwf. destruct Hwf as [Han Hes Hesw Hens Hensw Hdj Hcs Hcsw Has Hasw].
-  unfold items_of. change empty_ns with (nsacc (mapv norm_common_t []) (mapv norm_entity_t []) [] (mapv norm_action_t [])).
-  destruct (phase_commons (xs_commons n) [] (mapv norm_entity_t []) [] (mapv norm_action_t []) Hcs) as [F1 E1].
-  destruct (phase_entities (xs_entities n) [] (mapv norm_common_t ([] ++ xs_commons n)) [] (mapv norm_action_t []) Hes ltac:(reflexivity)) as [F2 E2].
-  destruct (phase_enums (xs_enums n) [] (mapv norm_common_t ([] ++ xs_commons n)) (mapv norm_entity_t ([] ++ xs_entities n)) (mapv norm_action_t []) Hens) as [F3 E3].
+  unfold items_of. change empty_ns with (nsacc (mapv (norm_common_t sh) []) (mapv (norm_entity_t sh) []) [] (mapv (norm_action_t sh) [])).
+  destruct (phase_commons (xs_commons n) [] (mapv (norm_entity_t sh) []) [] (mapv (norm_action_t sh) []) Hcs) as [F1 E1].
+  destruct (phase_entities (xs_entities n) [] (mapv (norm_common_t sh) ([] ++ xs_commons n)) [] (mapv (norm_action_t sh) []) Hes ltac:(reflexivity)) as [F2 E2].
+  destruct (phase_enums (xs_enums n) [] (mapv (norm_common_t sh) ([] ++ xs_commons n)) (mapv (norm_entity_t sh) ([] ++ xs_entities n)) (mapv (norm_action_t sh) []) Hens) as [F3 E3].
   { intros kv Hkv. rewrite has_key_mem, sj_mapv_keys. cbn [app]. unfold disjoint_keys in Hdj. rewrite forallb_forall in Hdj.
     apply negb_true_iff. apply Hdj. exact Hkv. }
-  destruct (phase_actions (xs_actions n) [] (mapv norm_common_t ([] ++ xs_commons n)) (mapv norm_entity_t ([] ++ xs_entities n)) ([] ++ xs_enums n) Has) as [F4 E4].
+  destruct (phase_actions (xs_actions n) [] (mapv (norm_common_t sh) ([] ++ xs_commons n)) (mapv (norm_entity_t sh) ([] ++ xs_entities n)) ([] ++ xs_enums n) Has) as [F4 E4].
   split.
   - apply fresh_chain_app. split; [exact F1|]. rewrite E1. apply fresh_chain_app. split; [exact F2|]. rewrite E2.
     apply fresh_chain_app. split; [exact F3|]. rewrite E3. exact F4.
   - rewrite !add_items_app, E1, E2, E3, E4. reflexivity.
 Qed.
 
-Lemma decl_blocks_items : forall ind n, wf_ns_t n = true -> decl_blocks ind n = map (print_item ind) (items_of n).
+Lemma decl_blocks_items : forall ind n, wf_ns_t n = true -> decl_blocks sh ind n = map (print_item ind) (items_of n).
 Proof.
   intros ind n Hwf. apply wf_ns_t_iff in Hwf. destruct Hwf as [Han Hes Hesw Hens Hensw Hdj Hcs Hcsw Has Hasw].
   unfold decl_blocks, items_of. rewrite !sj_rec_id by assumption. rewrite !map_app, !map_map. reflexivity.
@@ -1259,7 +1285,7 @@ Qed.
 (* Namespaces                                                                                  *)
 (* ------------------------------------------------------------------------------------------ *)
 Lemma namespace_text : forall name n rest, wf_ns_t n = true ->
-  print_namespace (name, n) ++ rest
+  print_namespace sh (name, n) ++ rest
   = pa 0 (xs_annots n) ++ tabs 0 ++ s_of "namespace" ++ 32 :: name ++ 32 :: 123 :: 10
     :: join_blocks true (map (print_item 1) (items_of n)) ++ 125 :: 10 :: rest.
 Proof.
@@ -1270,10 +1296,10 @@ Proof.
 Qed.
 
 Lemma namespace_lemma : forall name n fuel rest st', ns_path name = true -> wf_ns_t n = true -> rd rest = SOk st' ->
-  (2 * length (print_namespace (name, n) ++ rest) + 8 <= fuel)%nat ->
-  exists st st1 st2, rd (print_namespace (name, n) ++ rest) = SOk st /\ In (tk st) [KAt; KIdent]
+  (2 * length (print_namespace sh (name, n) ++ rest) + 8 <= fuel)%nat ->
+  exists st st1 st2, rd (print_namespace sh (name, n) ++ rest) = SOk st /\ In (tk st) [KAt; KIdent]
     /\ parse_annotations fuel [] st = SOk (xs_annots n, st1) /\ is st1 KIdent && kw st1 "namespace" = true
-    /\ read_token st1 = SOk st2 /\ parse_namespace fuel (xs_annots n) st2 = SOk (name, norm_ns_t n, st').
+    /\ read_token st1 = SOk st2 /\ parse_namespace fuel (xs_annots n) st2 = SOk (name, norm_ns_t sh n, st').
 Proof.
   intros name n fuel rest st' Hname Hwf Hrd Hf. rewrite (namespace_text name n rest Hwf) in Hf |- *.
   destruct (items_fold n Hwf) as [Hfresh Hfold].
@@ -1294,19 +1320,19 @@ Proof.
   rewrite rd_nl, Hrd_l. sst. rewrite Hp_l. cbn [sbind]. rewrite Hfold. reflexivity.
 Qed.
 
-Lemma print_namespace_len : forall kv, (1 <= length (print_namespace kv))%nat.
+Lemma print_namespace_len : forall kv, (1 <= length (print_namespace sh kv))%nat.
 Proof. intros kv. unfold print_namespace. repeat rewrite app_length. cbn [length]. lia. Qed.
 
 (* ------------------------------------------------------------------------------------------ *)
 (* The schema loop                                                                             *)
 (* ------------------------------------------------------------------------------------------ *)
 Inductive sitem := SD (it : ditem) | SN (kv : str * x_ns).
-Definition print_sitem (x : sitem) : str := match x with SD it => print_item 0 it | SN kv => print_namespace kv end.
+Definition print_sitem (x : sitem) : str := match x with SD it => print_item 0 it | SN kv => print_namespace sh kv end.
 Definition swf (x : sitem) : bool := match x with SD it => wf_item it | SN kv => ns_path (fst kv) && wf_ns_t (snd kv) end.
 Definition sstep (x : sitem) (p : x_ns * x_schema) : x_ns * x_schema :=
   match x with
   | SD it => (add_item it (fst p), snd p)
-  | SN kv => (fst p, rec_insert (fst kv) (norm_ns_t (snd kv)) (snd p))
+  | SN kv => (fst p, rec_insert (fst kv) (norm_ns_t sh (snd kv)) (snd p))
   end.
 Definition sfresh1 (x : sitem) (p : x_ns * x_schema) : bool :=
   match x with SD it => fresh_item it (fst p) | SN kv => negb (has_key (fst kv) (snd p)) end.
@@ -1367,7 +1393,7 @@ Proof.
 Qed.
 
 Lemma ssteps_SN : forall l pre b, keys_sorted (pre ++ l) = true ->
-  ssteps (map SN l) (b, mapv norm_ns_t pre) = (b, mapv norm_ns_t (pre ++ l)) /\ sfresh (map SN l) (b, mapv norm_ns_t pre).
+  ssteps (map SN l) (b, mapv (norm_ns_t sh) pre) = (b, mapv (norm_ns_t sh) (pre ++ l)) /\ sfresh (map SN l) (b, mapv (norm_ns_t sh) pre).
 Proof.
   induction l as [|[k v] l IH]; intros pre b Hs.
   - rewrite app_nil_r. split; [reflexivity|exact I].
@@ -1411,21 +1437,8 @@ Proof.
   destruct (xs_annots (snd kv)); [reflexivity|discriminate].
 Qed.
 
-Lemma has_decls_norm_t : forall n, has_decls (norm_ns_t n) = has_decls n.
+Lemma has_decls_norm_t : forall n, has_decls (norm_ns_t sh n) = has_decls n.
 Proof. intros n. unfold has_decls, norm_ns_t. cbn [xs_entities xs_enums xs_actions xs_commons]. rewrite !is_nil_mapv. reflexivity. Qed.
-
-Lemma print_schema_items : forall s, wf_text s = true -> print_schema s = join_blocks true (map print_sitem (sitems_of s)).
-Proof.
-  intros s Hwf. assert (Hs : keys_sorted s = true) by (unfold wf_text in Hwf; apply andb_true_iff in Hwf; tauto).
-  unfold print_schema. cbv zeta. rewrite (sj_rec_id s Hs). unfold sitems_of. rewrite map_app, !map_map. cbn [print_sitem].
-  fold named_kv. f_equal. f_equal.
-  destruct (rec_get [] s) as [n|] eqn:E; [|reflexivity].
-  assert (Hin : In ([], n) s).
-  { clear -E. induction s as [|[k v] s IH]; [discriminate|]. cbn [rec_get] in E. destruct (str_eqb [] k) eqn:Ek.
-    - apply str_eqb_eq in Ek. inversion E; subst. left. reflexivity.
-    - right. exact (IH E). }
-  destruct (wf_text_in s _ Hwf Hin) as [Hn _]. cbn [snd] in Hn. rewrite (decl_blocks_items 0 n Hn), map_map. reflexivity.
-Qed.
 
 Lemma swf_sitems : forall s, wf_text s = true -> forallb swf (sitems_of s) = true.
 Proof.
@@ -1445,14 +1458,14 @@ Proof.
     unfold named_kv in Hnm. destruct (fst kv); [discriminate|discriminate].
 Qed.
 
-Lemma set_annots_nil_id : forall n, xs_annots n = [] -> set_annots (norm_ns_t n) [] = norm_ns_t n.
+Lemma set_annots_nil_id : forall n, xs_annots n = [] -> set_annots (norm_ns_t sh n) [] = norm_ns_t sh n.
 Proof. intros [an es ens cs acts] H. cbn in H. subst an. reflexivity. Qed.
 
 Lemma sitems_result : forall s, wf_text s = true ->
-  sfresh (sitems_of s) (empty_ns, []) /\ sresult (ssteps (sitems_of s) (empty_ns, [])) = norm_text s.
+  sfresh (sitems_of s) (empty_ns, []) /\ sresult (ssteps (sitems_of s) (empty_ns, [])) = mapv (norm_ns_t sh) (filter ns_keep s).
 Proof.
   intros s Hwf. assert (Hs : keys_sorted s = true) by (unfold wf_text in Hwf; apply andb_true_iff in Hwf; tauto).
-  unfold sitems_of, norm_text.
+  unfold sitems_of.
   destruct s as [|[k n0] named].
   { split; [exact I|reflexivity]. }
   pose proof (sorted_tail_nonnil _ _ _ _ Hs) as Hnn.
@@ -1463,14 +1476,14 @@ Proof.
     destruct (items_fold n0 Hn) as [Hfresh Hfold].
     destruct (ssteps_SD (items_of n0) empty_ns []) as [E1 F1].
     destruct (ssteps_SN named [] (add_items (items_of n0) empty_ns) ltac:(apply keys_sorted_cons in Hs; tauto)) as [E2 F2].
-    cbn [app] in E2. change (mapv norm_ns_t []) with (@nil (str * x_ns)) in E2, F2.
-    assert (E : ssteps (map SD (items_of n0) ++ map SN named) (empty_ns, []) = (add_items (items_of n0) empty_ns, mapv norm_ns_t named)).
+    cbn [app] in E2. change (mapv (norm_ns_t sh) []) with (@nil (str * x_ns)) in E2, F2.
+    assert (E : ssteps (map SD (items_of n0) ++ map SN named) (empty_ns, []) = (add_items (items_of n0) empty_ns, mapv (norm_ns_t sh) named)).
     { rewrite ssteps_app. etransitivity; [exact (f_equal (ssteps (map SN named)) E1)|exact E2]. }
     split.
     + apply sfresh_app. split; [exact (F1 Hfresh)|].
       assert (G : forall p, p = (add_items (items_of n0) empty_ns, @nil (str * x_ns)) -> sfresh (map SN named) p) by (intros p ->; exact F2).
       apply G. exact E1.
-    + transitivity (sresult (add_items (items_of n0) empty_ns, mapv norm_ns_t named)); [exact (f_equal sresult E)|].
+    + transitivity (sresult (add_items (items_of n0) empty_ns, mapv (norm_ns_t sh) named)); [exact (f_equal sresult E)|].
       unfold sresult. cbn [fst snd]. rewrite Hfold, (set_annots_nil_id n0 (Han eq_refl)), has_decls_norm_t.
       cbn [filter]. unfold ns_keep at 1. cbn [fst snd is_nil negb orb]. rewrite (filter_keep_all named Hnn).
       destruct (has_decls n0); reflexivity.
@@ -1483,16 +1496,32 @@ Proof.
       let R := fresh "R" in assert (R : filter ns_keep l = l) by (apply filter_keep_all; exact Hall); rewrite R end.
     cbn [app].
     destruct (ssteps_SN ((c :: k, n0) :: named) [] empty_ns Hs) as [E2 F2].
-    change (mapv norm_ns_t []) with (@nil (str * x_ns)) in E2, F2. cbn [app] in E2.
-    split; [exact F2|]. transitivity (sresult (empty_ns, mapv norm_ns_t ((c :: k, n0) :: named))); [exact (f_equal sresult E2)|]. reflexivity.
+    change (mapv (norm_ns_t sh) []) with (@nil (str * x_ns)) in E2, F2. cbn [app] in E2.
+    split; [exact F2|]. transitivity (sresult (empty_ns, mapv (norm_ns_t sh) ((c :: k, n0) :: named))); [exact (f_equal sresult E2)|]. reflexivity.
+Qed.
+
+End WithShadowed.
+
+Lemma print_schema_items : forall s, wf_text s = true -> print_schema s = join_blocks true (map (print_sitem (shadowed_builtins s)) (sitems_of s)).
+Proof.
+  intros s Hwf. assert (Hs : keys_sorted s = true) by (unfold wf_text in Hwf; apply andb_true_iff in Hwf; tauto).
+  unfold print_schema. cbv zeta. rewrite (sj_rec_id s Hs). unfold sitems_of. rewrite map_app, !map_map. cbn [print_sitem].
+  fold named_kv. f_equal. f_equal.
+  destruct (rec_get [] s) as [n|] eqn:E; [|reflexivity].
+  assert (Hin : In ([], n) s).
+  { clear -E. induction s as [|[k v] s IH]; [discriminate|]. cbn [rec_get] in E. destruct (str_eqb [] k) eqn:Ek.
+    - apply str_eqb_eq in Ek. inversion E; subst. left. reflexivity.
+    - right. exact (IH E). }
+  destruct (wf_text_in s _ Hwf Hin) as [Hn _]. cbn [snd] in Hn. rewrite (decl_blocks_items (shadowed_builtins s) 0 n Hn), map_map. reflexivity.
 Qed.
 
 Theorem parse_print_schema : forall s, wf_text s = true -> parse_schema (print_schema s) = SOk (norm_text s).
 Proof.
   intros s Hwf. unfold parse_schema. change (read_token {| p_tok := mk_tok KEOF []; p_src := print_schema s |}) with (rd (print_schema s)).
-  rewrite (print_schema_items s Hwf).
-  destruct (sitems_result s Hwf) as [Hfresh Hres].
-  destruct (schema_loop_lemma (sitems_of s) true empty_ns [] (parse_schema_fuel (length (join_blocks true (map print_sitem (sitems_of s)))))
+  rewrite (print_schema_items s Hwf). set (sh := shadowed_builtins s).
+  assert (Hsh : forall n, sh n = true -> is_builtin_name n = true) by (intros n; apply shadowed_builtin).
+  destruct (sitems_result sh s Hwf) as [Hfresh Hres].
+  destruct (schema_loop_lemma sh Hsh (sitems_of s) true empty_ns [] (parse_schema_fuel (length (join_blocks true (map (print_sitem sh) (sitems_of s)))))
               (swf_sitems s Hwf) Hfresh ltac:(unfold parse_schema_fuel; lia)) as (st & Hrd & Hp).
   rewrite Hrd. cbn [sbind]. rewrite Hp. f_equal. exact Hres.
 Qed.
@@ -1500,62 +1529,53 @@ Qed.
 (* ------------------------------------------------------------------------------------------ *)
 (* Normalisation is idempotent and preserves wf_text                                           *)
 (* ------------------------------------------------------------------------------------------ *)
-Lemma norm_ty_idem : forall t, norm_ty (norm_ty t) = norm_ty t.
+(* a normalised type only holds references: normalising it again, with whatever set of shadowed names, changes nothing *)
+Lemma norm_ty_idem : forall sh sh' t, norm_ty sh' (norm_ty sh t) = norm_ty sh t.
 Proof.
-  induction t as [| | |n|e IHe|fs IHfs|r|r] using xty_ind'; try reflexivity.
+  intros sh sh'. induction t as [| | |n|e IHe|fs IHfs|r|r] using xty_ind'; try reflexivity.
   - cbn [norm_ty]. rewrite IHe. reflexivity.
   - rewrite !norm_ty_rec. f_equal. rewrite sj_mapv_mapv. apply sj_mapv_ext_in. intros [key [[ty opt] an]] Hin.
     rewrite Forall_forall in IHfs. specialize (IHfs _ Hin). cbn [fst snd] in *. unfold norm_attr. cbn [fst snd]. rewrite IHfs. reflexivity.
 Qed.
 
-Lemma wf_tty_norm : forall t, wf_tty t = true -> wf_tty (norm_ty t) = true.
+Lemma norm_entity_t_idem : forall sh sh' e, norm_entity_t sh' (norm_entity_t sh e) = norm_entity_t sh e.
 Proof.
-  induction t as [| | |n|e IHe|fs IHfs|r|r] using xty_ind'; intros H; try exact H; try reflexivity.
-  - cbn [norm_ty wf_tty] in *. exact (IHe H).
-  - rewrite norm_ty_rec, wf_tty_rec in *. apply andb_true_iff in H. destruct H as [Hs Hall]. apply andb_true_iff. split.
-    + rewrite sj_sorted_mapv. exact Hs.
-    + rewrite forallb_forall in *. intros kv Hkv. unfold mapv in Hkv. apply in_map_iff in Hkv. destruct Hkv as (x & <- & Hx).
-      specialize (Hall x Hx). rewrite Forall_forall in IHfs. specialize (IHfs x Hx).
-      unfold wf_tattr, norm_attr in *. cbn [fst snd]. apply andb_true_iff in Hall. destruct Hall as [Hall Han].
-      apply andb_true_iff in Hall. destruct Hall as [Hk Ht]. rewrite Hk, Han, (IHfs Ht). reflexivity.
-Qed.
-
-Lemma opt_wf_tty_norm : forall o, opt_wf_tty o = true -> opt_wf_tty (option_map norm_ty o) = true.
-Proof. intros [t|] H; [exact (wf_tty_norm t H)|reflexivity]. Qed.
-Lemma opt_wf_rec_norm : forall o, opt_wf_tty (option_map XRec o) = true -> opt_wf_tty (option_map XRec (option_map norm_rec o)) = true.
-Proof. intros [fs|] H; [|reflexivity]. cbn [option_map opt_wf_tty] in *. unfold norm_rec. rewrite <- norm_ty_rec. exact (wf_tty_norm _ H). Qed.
-
-Lemma norm_entity_t_idem : forall e, norm_entity_t (norm_entity_t e) = norm_entity_t e.
-Proof.
-  intros [an ps sh tg]. unfold norm_entity_t. cbn [xe_annots xe_parents xe_shape xe_tags]. f_equal.
-  - destruct sh as [fs|]; [|reflexivity]. cbn [option_map]. f_equal.
-    pose proof (norm_ty_idem (XRec fs)) as H. rewrite !norm_ty_rec in H. inversion H as [H1]. unfold norm_rec. exact H1.
+  intros sh sh' [an ps shp tg]. unfold norm_entity_t. cbn [xe_annots xe_parents xe_shape xe_tags]. f_equal.
+  - destruct shp as [fs|]; [|reflexivity]. cbn [option_map]. f_equal.
+    pose proof (norm_ty_idem sh sh' (XRec fs)) as H. rewrite !norm_ty_rec in H. injection H as H1. exact H1.
   - destruct tg as [t|]; [|reflexivity]. cbn [option_map]. rewrite norm_ty_idem. reflexivity.
 Qed.
-Lemma norm_common_t_idem : forall c, norm_common_t (norm_common_t c) = norm_common_t c.
-Proof. intros [an t]. unfold norm_common_t. cbn [xc_annots xc_type]. rewrite norm_ty_idem. reflexivity. Qed.
-Lemma norm_applies_t_idem : forall a, norm_applies_t (norm_applies_t a) = norm_applies_t a.
-Proof. intros [ps rs c]. unfold norm_applies_t. cbn [xa_principals xa_resources xa_context]. destruct c as [t|]; [|reflexivity]. cbn [option_map]. rewrite norm_ty_idem. reflexivity. Qed.
-Lemma norm_action_t_idem : forall a, norm_action_t (norm_action_t a) = norm_action_t a.
-Proof. intros [an ps ap]. unfold norm_action_t. cbn [xac_annots xac_parents xac_applies]. destruct ap as [a|]; [|reflexivity]. cbn [option_map]. rewrite norm_applies_t_idem. reflexivity. Qed.
-
-Lemma norm_ns_t_idem : forall n, norm_ns_t (norm_ns_t n) = norm_ns_t n.
+Lemma norm_common_t_idem : forall sh sh' c, norm_common_t sh' (norm_common_t sh c) = norm_common_t sh c.
+Proof. intros sh sh' [an t]. unfold norm_common_t. cbn [xc_annots xc_type]. rewrite norm_ty_idem. reflexivity. Qed.
+Lemma norm_applies_t_idem : forall sh sh' a, norm_applies_t sh' (norm_applies_t sh a) = norm_applies_t sh a.
 Proof.
-  intros n. unfold norm_ns_t. cbn [xs_annots xs_entities xs_enums xs_commons xs_actions]. rewrite !sj_mapv_mapv. f_equal.
+  intros sh sh' [ps rs c]. unfold norm_applies_t. cbn [xa_principals xa_resources xa_context]. destruct c as [t|]; [|reflexivity].
+  cbn [option_map]. rewrite norm_ty_idem. reflexivity.
+Qed.
+Lemma norm_action_t_idem : forall sh sh' a, norm_action_t sh' (norm_action_t sh a) = norm_action_t sh a.
+Proof.
+  intros sh sh' [an ps ap]. unfold norm_action_t. cbn [xac_annots xac_parents xac_applies]. destruct ap as [a|]; [|reflexivity].
+  cbn [option_map]. rewrite norm_applies_t_idem. reflexivity.
+Qed.
+
+Lemma norm_ns_t_idem : forall sh sh' n, norm_ns_t sh' (norm_ns_t sh n) = norm_ns_t sh n.
+Proof.
+  intros sh sh' n. unfold norm_ns_t. cbn [xs_annots xs_entities xs_enums xs_commons xs_actions]. rewrite !sj_mapv_mapv. f_equal.
   - apply sj_mapv_ext_in. intros kv _. apply norm_entity_t_idem.
   - apply sj_mapv_ext_in. intros kv _. apply norm_common_t_idem.
   - apply sj_mapv_ext_in. intros kv _. apply norm_action_t_idem.
 Qed.
 
-Lemma filter_keep_norm_t : forall l, filter ns_keep (mapv norm_ns_t l) = mapv norm_ns_t (filter ns_keep l).
+Lemma filter_keep_norm_t : forall sh l, filter ns_keep (mapv (norm_ns_t sh) l) = mapv (norm_ns_t sh) (filter ns_keep l).
 Proof.
-  induction l as [|[name n] l IH]; [reflexivity|]. rewrite sj_mapv_cons. cbn [filter fst snd]. rewrite IH.
+  intros sh. induction l as [|[name n] l IH]; [reflexivity|]. rewrite sj_mapv_cons. cbn [filter fst snd]. rewrite IH.
   unfold ns_keep. cbn [fst snd]. rewrite has_decls_norm_t. destruct (negb (is_nil name) || has_decls n); reflexivity.
 Qed.
 
 Theorem norm_text_idem : forall s, norm_text (norm_text s) = norm_text s.
 Proof.
-  intros s. unfold norm_text. rewrite filter_keep_norm_t, filter_idem, sj_mapv_mapv.
+  intros s. unfold norm_text at 1. generalize (shadowed_builtins (norm_text s)). intros sh'. unfold norm_text.
+  rewrite filter_keep_norm_t, filter_idem, sj_mapv_mapv.
   apply sj_mapv_ext_in. intros kv _. apply norm_ns_t_idem.
 Qed.
 
@@ -1566,18 +1586,43 @@ Proof.
   destruct Hkv as (x & <- & Hx). apply H; [exact Hx|apply Hq; exact Hx].
 Qed.
 
-Lemma wf_entity_t_norm : forall e, wf_entity_t e = true -> wf_entity_t (norm_entity_t e) = true.
+Section NormWf.
+Variable sh : str -> bool.
+Hypothesis Hsh : forall n, sh n = true -> is_builtin_name n = true.
+
+Lemma wf_tty_norm : forall t, wf_tty t = true -> wf_tty (norm_ty sh t) = true.
+Proof.
+  induction t as [| | |n|e IHe|fs IHfs|r|r] using xty_ind'; intros H; try exact H.
+  - apply type_path_wb; [exact Hsh|reflexivity].
+  - apply type_path_wb; [exact Hsh|reflexivity].
+  - apply type_path_wb; [exact Hsh|reflexivity].
+  - apply type_path_wb; [exact Hsh|exact H].
+  - cbn [norm_ty wf_tty] in *. exact (IHe H).
+  - rewrite norm_ty_rec, wf_tty_rec in *. apply andb_true_iff in H. destruct H as [Hs Hall]. apply andb_true_iff. split.
+    + rewrite sj_sorted_mapv. exact Hs.
+    + rewrite forallb_forall in *. intros kv Hkv. unfold mapv in Hkv. apply in_map_iff in Hkv. destruct Hkv as (x & <- & Hx).
+      specialize (Hall x Hx). rewrite Forall_forall in IHfs. specialize (IHfs x Hx).
+      unfold wf_tattr, norm_attr in *. cbn [fst snd]. apply andb_true_iff in Hall. destruct Hall as [Hall Han].
+      apply andb_true_iff in Hall. destruct Hall as [Hk Ht]. rewrite Hk, Han, (IHfs Ht). reflexivity.
+Qed.
+
+Lemma opt_wf_tty_norm : forall o, opt_wf_tty o = true -> opt_wf_tty (option_map (norm_ty sh) o) = true.
+Proof. intros [t|] H; [exact (wf_tty_norm t H)|reflexivity]. Qed.
+Lemma opt_wf_rec_norm : forall o, opt_wf_tty (option_map XRec o) = true -> opt_wf_tty (option_map XRec (option_map (norm_rec sh) o)) = true.
+Proof. intros [fs|] H; [|reflexivity]. cbn [option_map opt_wf_tty] in *. unfold norm_rec. rewrite <- norm_ty_rec. exact (wf_tty_norm _ H). Qed.
+
+Lemma wf_entity_t_norm : forall e, wf_entity_t e = true -> wf_entity_t (norm_entity_t sh e) = true.
 Proof.
   intros e H. unfold wf_entity_t in *. cbn [norm_entity_t xe_annots xe_parents xe_shape xe_tags].
   apply andb_true_iff in H. destruct H as [H Ht]. apply andb_true_iff in H. destruct H as [H Hs]. rewrite H.
   rewrite (opt_wf_rec_norm _ Hs), (opt_wf_tty_norm _ Ht). reflexivity.
 Qed.
-Lemma wf_common_t_norm : forall c, wf_common_t c = true -> wf_common_t (norm_common_t c) = true.
+Lemma wf_common_t_norm : forall c, wf_common_t c = true -> wf_common_t (norm_common_t sh c) = true.
 Proof.
   intros c H. unfold wf_common_t in *. cbn [norm_common_t xc_annots xc_type]. apply andb_true_iff in H. destruct H as [H Ht].
   rewrite H, (wf_tty_norm _ Ht). reflexivity.
 Qed.
-Lemma wf_action_t_norm : forall a, wf_action_t a = true -> wf_action_t (norm_action_t a) = true.
+Lemma wf_action_t_norm : forall a, wf_action_t a = true -> wf_action_t (norm_action_t sh a) = true.
 Proof.
   intros a H. unfold wf_action_t in *. cbn [norm_action_t xac_annots xac_parents xac_applies]. apply andb_true_iff in H. destruct H as [H Hap].
   rewrite H. destruct (xac_applies a) as [ap|]; [|reflexivity]. cbn [option_map andb].
@@ -1585,7 +1630,7 @@ Proof.
   rewrite Hap, (opt_wf_tty_norm _ Hc). reflexivity.
 Qed.
 
-Lemma wf_ns_t_norm : forall n, wf_ns_t n = true -> wf_ns_t (norm_ns_t n) = true.
+Lemma wf_ns_t_norm : forall n, wf_ns_t n = true -> wf_ns_t (norm_ns_t sh n) = true.
 Proof.
   intros n Hwf. apply wf_ns_t_iff in Hwf. destruct Hwf as [Han Hes Hesw Hens Hensw Hdj Hcs Hcsw Has Hasw].
   apply wf_ns_t_iff. constructor; cbn [norm_ns_t xs_annots xs_entities xs_enums xs_commons xs_actions]; auto.
@@ -1600,6 +1645,7 @@ Proof.
   - refine (forallb_mapv _ _ _ _ _ _ _ Hasw). intros kv _ H. cbn [fst snd]. apply andb_true_iff in H. destruct H as [H1 H2].
     rewrite H1, (wf_action_t_norm _ H2). reflexivity.
 Qed.
+End NormWf.
 
 Theorem wf_norm_text : forall s, wf_text s = true -> wf_text (norm_text s) = true.
 Proof.
@@ -1609,7 +1655,7 @@ Proof.
   - apply forallb_forall. intros kv Hkv. unfold norm_text, mapv in Hkv. apply in_map_iff in Hkv. destruct Hkv as (x & <- & Hx).
     apply filter_In in Hx. destruct Hx as [Hx _]. unfold wf_text in Hwf. apply andb_true_iff in Hwf. destruct Hwf as [_ Hall].
     rewrite forallb_forall in Hall. specialize (Hall x Hx). apply andb_true_iff in Hall. destruct Hall as [H1 H2]. cbn [fst snd].
-    rewrite (wf_ns_t_norm _ H1). exact H2.
+    rewrite (wf_ns_t_norm _ (shadowed_builtin s) _ H1). exact H2.
 Qed.
 
 Theorem norm_text_idempotent : forall s, wf_text s = true -> norm_text (norm_text s) = norm_text s /\ wf_text (norm_text s) = true.
@@ -1618,9 +1664,15 @@ Proof. intros s Hwf. split; [apply norm_text_idem|apply wf_norm_text; exact Hwf]
 (* ------------------------------------------------------------------------------------------ *)
 (* A second rendering is byte-identical                                                        *)
 (* ------------------------------------------------------------------------------------------ *)
+(* a normalised type is printed verbatim, whatever the set of shadowed names of the second rendering is *)
+Section SecondRendering.
+Variables sh sh' : str -> bool.
+Hypothesis Hsh : forall n, sh n = true -> is_builtin_name n = true.
+
 Lemma pf_norm : forall ind fs,
-  Forall (fun kv : str * xattr => wf_tty (fst (fst (snd kv))) = true -> forall i, print_type (norm_ty (fst (fst (snd kv)))) i = print_type (fst (fst (snd kv))) i) fs ->
-  forallb wf_tattr fs = true -> pf ind (mapv norm_attr fs) = pf ind fs.
+  Forall (fun kv : str * xattr => wf_tty (fst (fst (snd kv))) = true ->
+                                  forall i, print_type sh' (norm_ty sh (fst (fst (snd kv)))) i = print_type sh (fst (fst (snd kv))) i) fs ->
+  forallb wf_tattr fs = true -> pf sh' ind (mapv (norm_attr sh) fs) = pf sh ind fs.
 Proof.
   intros ind fs HF. induction HF as [|[key [[ty opt] an]] fs Hx HF IH]; intros Hwf; [reflexivity|].
   cbn [forallb] in Hwf. apply andb_true_iff in Hwf. destruct Hwf as [Hw Hwf].
@@ -1628,29 +1680,29 @@ Proof.
   rewrite sj_mapv_cons. cbn [pf fst snd norm_attr]. rewrite (IH Hwf), (Hx Hty). destruct fs; reflexivity.
 Qed.
 
-Lemma print_type_norm : forall t, wf_tty t = true -> forall ind, print_type (norm_ty t) ind = print_type t ind.
+Lemma print_type_norm : forall t, wf_tty t = true -> forall ind, print_type sh' (norm_ty sh t) ind = print_type sh t ind.
 Proof.
   induction t as [| | |n|e IHe|fs IHfs|r|r] using xty_ind'; intros Hwf ind; try reflexivity.
   - cbn [norm_ty print_type wf_tty] in *. rewrite (IHe Hwf). reflexivity.
-  - pose proof (wf_tty_norm _ Hwf) as Hwf'. rewrite norm_ty_rec in *.
-    rewrite (print_type_rec_eq _ ind Hwf'), (print_type_rec_eq _ ind Hwf).
+  - pose proof (wf_tty_norm sh Hsh _ Hwf) as Hwf'. rewrite norm_ty_rec in *.
+    rewrite (print_type_rec_eq sh' _ ind Hwf'), (print_type_rec_eq sh _ ind Hwf).
     rewrite wf_tty_rec in Hwf. apply andb_true_iff in Hwf. destruct Hwf as [_ Hall].
     rewrite (pf_norm (S ind) fs IHfs Hall). destruct fs; reflexivity.
 Qed.
 
-Lemma print_entity_norm : forall ind k e, wf_entity_t e = true -> print_entity ind (k, norm_entity_t e) = print_entity ind (k, e).
+Lemma print_entity_norm : forall ind k e, wf_entity_t e = true -> print_entity sh' ind (k, norm_entity_t sh e) = print_entity sh ind (k, e).
 Proof.
   intros ind k e H. unfold wf_entity_t in H. apply andb_true_iff in H. destruct H as [H Ht]. apply andb_true_iff in H. destruct H as [_ Hs].
   unfold print_entity. cbv zeta. cbn [fst snd norm_entity_t xe_annots xe_parents xe_shape xe_tags].
   destruct (xe_shape e) as [fs|]; destruct (xe_tags e) as [t|]; cbn [option_map opt_wf_tty] in *;
     unfold norm_rec; rewrite <- ?norm_ty_rec, ?(print_type_norm _ Hs), ?(print_type_norm _ Ht); reflexivity.
 Qed.
-Lemma print_common_norm : forall ind k c, wf_common_t c = true -> print_common ind (k, norm_common_t c) = print_common ind (k, c).
+Lemma print_common_norm : forall ind k c, wf_common_t c = true -> print_common sh' ind (k, norm_common_t sh c) = print_common sh ind (k, c).
 Proof.
   intros ind k c H. unfold wf_common_t in H. apply andb_true_iff in H. destruct H as [_ Ht].
   unfold print_common. cbn [fst snd norm_common_t xc_annots xc_type]. rewrite (print_type_norm _ Ht). reflexivity.
 Qed.
-Lemma print_action_norm : forall ind k a, wf_action_t a = true -> print_action ind (k, norm_action_t a) = print_action ind (k, a).
+Lemma print_action_norm : forall ind k a, wf_action_t a = true -> print_action sh' ind (k, norm_action_t sh a) = print_action sh ind (k, a).
 Proof.
   intros ind k a H. unfold wf_action_t in H. apply andb_true_iff in H. destruct H as [_ Hap].
   unfold print_action. cbv zeta. cbn [fst snd norm_action_t xac_annots xac_parents xac_applies].
@@ -1660,13 +1712,13 @@ Proof.
   destruct (xa_context ap) as [t|]; [|reflexivity]. cbn [option_map opt_wf_tty] in *. rewrite (print_type_norm _ Hc). reflexivity.
 Qed.
 
-Lemma map_mapv_ext : forall (A : Type) (g : A -> A) (h : str * A -> str) l,
-  (forall kv, In kv l -> h (fst kv, g (snd kv)) = h kv) -> map h (mapv g l) = map h l.
-Proof. intros A g h l H. unfold mapv. rewrite map_map. apply map_ext_in. intros kv Hkv. apply H. exact Hkv. Qed.
+Lemma map_mapv_ext : forall (A : Type) (g : A -> A) (h h' : str * A -> str) l,
+  (forall kv, In kv l -> h' (fst kv, g (snd kv)) = h kv) -> map h' (mapv g l) = map h l.
+Proof. intros A g h h' l H. unfold mapv. rewrite map_map. apply map_ext_in. intros kv Hkv. apply H. exact Hkv. Qed.
 
-Lemma decl_blocks_norm : forall ind n, wf_ns_t n = true -> decl_blocks ind (norm_ns_t n) = decl_blocks ind n.
+Lemma decl_blocks_norm : forall ind n, wf_ns_t n = true -> decl_blocks sh' ind (norm_ns_t sh n) = decl_blocks sh ind n.
 Proof.
-  intros ind n Hwf. pose proof (wf_ns_t_norm _ Hwf) as Hwf'.
+  intros ind n Hwf. pose proof (wf_ns_t_norm sh Hsh _ Hwf) as Hwf'.
   apply wf_ns_t_iff in Hwf. destruct Hwf as [Han Hes Hesw Hens Hensw Hdj Hcs Hcsw Has Hasw].
   apply wf_ns_t_iff in Hwf'. destruct Hwf' as [Han' Hes' _ Hens' _ _ Hcs' _ Has' _].
   unfold decl_blocks. rewrite !sj_rec_id by assumption. cbn [norm_ns_t xs_entities xs_enums xs_commons xs_actions].
@@ -1679,31 +1731,32 @@ Proof.
     apply print_action_norm. exact Ha.
 Qed.
 
-Lemma print_namespace_norm : forall k n, wf_ns_t n = true -> print_namespace (k, norm_ns_t n) = print_namespace (k, n).
+Lemma print_namespace_norm : forall k n, wf_ns_t n = true -> print_namespace sh' (k, norm_ns_t sh n) = print_namespace sh (k, n).
 Proof. intros k n Hwf. unfold print_namespace. cbn [fst snd]. rewrite (decl_blocks_norm 1 n Hwf). reflexivity. Qed.
 
-Lemma decl_blocks_empty : forall ind n, has_decls n = false -> decl_blocks ind n = [].
-Proof.
-  intros ind n H. unfold has_decls in H. apply negb_false_iff in H. repeat (apply andb_true_iff in H; destruct H as [H ?]).
-  unfold decl_blocks. destruct (xs_entities n); [|discriminate]. destruct (xs_enums n); [|discriminate].
-  destruct (xs_actions n); [|discriminate]. destruct (xs_commons n); [|discriminate]. reflexivity.
-Qed.
-
-Lemma rec_get_mapv_nonnil : forall (l : x_schema), Forall (fun kv => fst kv <> []) l -> rec_get [] (mapv norm_ns_t l) = None.
+Lemma rec_get_mapv_nonnil : forall (l : x_schema), Forall (fun kv => fst kv <> []) l -> rec_get [] (mapv (norm_ns_t sh) l) = None.
 Proof.
   intros l H. induction H as [|[k v] l Hk Hl IH]; [reflexivity|]. rewrite sj_mapv_cons. cbn [rec_get fst snd] in *.
   destruct k; [contradiction|]. exact IH.
 Qed.
-Lemma filter_named_mapv : forall (l : x_schema), Forall (fun kv => fst kv <> []) l -> filter named_kv (mapv norm_ns_t l) = mapv norm_ns_t l.
+Lemma filter_named_mapv : forall (l : x_schema), Forall (fun kv => fst kv <> []) l -> filter named_kv (mapv (norm_ns_t sh) l) = mapv (norm_ns_t sh) l.
 Proof.
   intros l H. induction H as [|[k v] l Hk Hl IH]; [reflexivity|]. rewrite sj_mapv_cons. cbn [filter named_kv fst snd] in *.
   destruct k; [contradiction|]. cbn [is_nil negb]. rewrite IH. reflexivity.
 Qed.
 
 Lemma map_print_namespace_norm : forall (l : x_schema), (forall kv, In kv l -> wf_ns_t (snd kv) = true) ->
-  map print_namespace (mapv norm_ns_t l) = map print_namespace l.
+  map (print_namespace sh') (mapv (norm_ns_t sh) l) = map (print_namespace sh) l.
 Proof.
   intros l H. apply map_mapv_ext. intros [k n] Hkv. cbn [fst snd]. apply print_namespace_norm. apply (H _ Hkv).
+Qed.
+End SecondRendering.
+
+Lemma decl_blocks_empty : forall sh ind n, has_decls n = false -> decl_blocks sh ind n = [].
+Proof.
+  intros sh ind n H. unfold has_decls in H. apply negb_false_iff in H. repeat (apply andb_true_iff in H; destruct H as [H ?]).
+  unfold decl_blocks. destruct (xs_entities n); [|discriminate]. destruct (xs_enums n); [|discriminate].
+  destruct (xs_actions n); [|discriminate]. destruct (xs_commons n); [|discriminate]. reflexivity.
 Qed.
 
 Corollary second_text_rendering : forall s, wf_text s = true -> print_schema (norm_text s) = print_schema s.
@@ -1713,8 +1766,10 @@ Proof.
   assert (Hs' : keys_sorted (norm_text s) = true) by (unfold wf_text in Hwf'; apply andb_true_iff in Hwf'; tauto).
   unfold print_schema. cbv zeta. rewrite (sj_rec_id _ Hs), (sj_rec_id _ Hs').
   change (fun kv : str * x_ns => negb (is_nil (fst kv))) with named_kv.
+  generalize (shadowed_builtins (norm_text s)). intros sh'.
   assert (Hin : forall kv, In kv s -> wf_ns_t (snd kv) = true) by (intros kv Hkv; apply (wf_text_in s kv Hwf Hkv)).
   clear Hwf' Hs'. unfold norm_text.
+  pose proof (shadowed_builtin s) as Hsh. set (sh := shadowed_builtins s) in *.
   destruct s as [|[k n0] named]; [reflexivity|].
   pose proof (sorted_tail_nonnil _ _ _ _ Hs) as Hnn.
   assert (Hin' : forall kv, In kv named -> wf_ns_t (snd kv) = true) by (intros kv Hkv; apply Hin; right; exact Hkv).
@@ -1731,21 +1786,21 @@ Proof.
     cbn [rec_get fst]. change (str_eqb [] []) with true. cbv iota.
     destruct (has_decls n0) eqn:Hd.
     + rewrite sj_mapv_cons. cbn [rec_get fst snd filter]. unfold named_kv at 1. cbn [fst is_nil negb]. change (str_eqb [] []) with true. cbv iota.
-      rewrite (filter_named_mapv named Hnn), (decl_blocks_norm 0 n0 Hn0), (map_print_namespace_norm named Hin'). reflexivity.
-    + rewrite (rec_get_mapv_nonnil named Hnn), (filter_named_mapv named Hnn), (decl_blocks_empty 0 n0 Hd), (map_print_namespace_norm named Hin').
+      rewrite (filter_named_mapv sh named Hnn), (decl_blocks_norm sh sh' Hsh 0 n0 Hn0), (map_print_namespace_norm sh sh' Hsh named Hin'). reflexivity.
+    + rewrite (rec_get_mapv_nonnil sh named Hnn), (filter_named_mapv sh named Hnn), (decl_blocks_empty sh 0 n0 Hd), (map_print_namespace_norm sh sh' Hsh named Hin').
       reflexivity.
   - assert (Hall : Forall (fun kv : str * x_ns => fst kv <> []) ((c :: k, n0) :: named)) by (constructor; [discriminate|exact Hnn]).
     match goal with |- context [filter ns_keep ?l] =>
       let R := fresh "R" in assert (R : filter ns_keep l = l) by (apply filter_keep_all; exact Hall); rewrite R end.
-    match goal with |- context [rec_get ?k0 (mapv norm_ns_t ?l)] =>
-      let R := fresh "R" in assert (R : rec_get k0 (mapv norm_ns_t l) = None) by (apply rec_get_mapv_nonnil; exact Hall); rewrite R end.
-    match goal with |- context [filter named_kv (mapv norm_ns_t ?l)] =>
-      let R := fresh "R" in assert (R : filter named_kv (mapv norm_ns_t l) = mapv norm_ns_t l) by (apply filter_named_mapv; exact Hall); rewrite R end.
+    match goal with |- context [rec_get ?k0 (mapv (norm_ns_t sh) ?l)] =>
+      let R := fresh "R" in assert (R : rec_get k0 (mapv (norm_ns_t sh) l) = None) by (apply rec_get_mapv_nonnil; exact Hall); rewrite R end.
+    match goal with |- context [filter named_kv (mapv (norm_ns_t sh) ?l)] =>
+      let R := fresh "R" in assert (R : filter named_kv (mapv (norm_ns_t sh) l) = mapv (norm_ns_t sh) l) by (apply filter_named_mapv; exact Hall); rewrite R end.
     match goal with |- context [rec_get ?k0 (?a :: named)] =>
       let R := fresh "R" in assert (R : rec_get k0 (a :: named) = None) by (apply rec_get_nil_none; exact Hall); rewrite R end.
     match goal with |- context [filter named_kv (?a :: named)] =>
       let R := fresh "R" in assert (R : filter named_kv (a :: named) = a :: named) by (apply filter_named_all; exact Hall); rewrite R end.
-    rewrite (map_print_namespace_norm _ Hin). reflexivity.
+    rewrite (map_print_namespace_norm sh sh' Hsh _ Hin). reflexivity.
 Qed.
 
 (* ------------------------------------------------------------------------------------------ *)
@@ -1875,13 +1930,18 @@ Qed.
 (* Part 2: resolution (Impl/SchemaResolve.v) of the schema that comes back                                            *)
 (* ================================================================================================================= *)
 Import Cedar.Impl.SchemaResolve.   (* [sep], [mem] ...: shadowed by later imports above *)
-(* norm_text on what the resolver reads: every type name becomes a TypeRef; the empty bare namespace goes *)
+Section ResolveSh.
+(* the set of shadowed built-in names the text was printed with (any set, in this section) *)
+Variable sh : str -> bool.
+
+(* norm_text on what the resolver reads: every type name becomes a TypeRef, a shadowed built-in name with the __cedar:: prefix;
+   the empty bare namespace goes *)
 Fixpoint nrm (t : sty) : sty :=
   match t with
-  | TyString => TyRef (s_of "String")
-  | TyLong => TyRef (s_of "Long")
-  | TyBool => TyRef (s_of "Bool")
-  | TyExt n => TyRef n
+  | TyString => TyRef (write_builtin sh (s_of "String"))
+  | TyLong => TyRef (write_builtin sh (s_of "Long"))
+  | TyBool => TyRef (write_builtin sh (s_of "Bool"))
+  | TyExt n => TyRef (write_builtin sh n)
   | TyEnt r => TyRef r
   | TyRef r => TyRef r
   | TySet e => TySet (nrm e)
@@ -1915,7 +1975,7 @@ Qed.
 Lemma erase_rec_fields : forall fs, erase_rec fs = erase_fields fs.
 Proof. intros fs. unfold erase_rec. rewrite erase_ty_rec. reflexivity. Qed.
 
-Lemma erase_norm_ty : forall t, erase_ty (norm_ty t) = nrm (erase_ty t).
+Lemma erase_norm_ty : forall t, erase_ty (norm_ty sh t) = nrm (erase_ty t).
 Proof.
   induction t as [| | |n|e IHe|fs IHfs|r|r] using xty_ind'; try reflexivity.
   - cbn [norm_ty erase_ty nrm]. rewrite IHe. reflexivity.
@@ -1923,9 +1983,9 @@ Proof.
     apply map_ext_in. intros kv Hkv. rewrite Forall_forall in IHfs. specialize (IHfs kv Hkv). cbn [fst snd norm_attr]. rewrite IHfs. reflexivity.
 Qed.
 
-Lemma erase_norm_text : forall s, erase (norm_text s) = nrm_s (erase s).
+Lemma erase_norm_text_sh : forall s, erase (mapv (norm_ns_t sh) (filter ns_keep s)) = nrm_s (erase s).
 Proof.
-  intros s. unfold erase, norm_text, nrm_s. rewrite sj_filter_map.
+  intros s. unfold erase, nrm_s. rewrite sj_filter_map.
   assert (Hf : filter (fun x => s_keep (erase_ns x)) s = filter ns_keep s).
   { apply filter_ext. intros [name n]. unfold s_keep, ns_keep, has_decls, erase_ns. cbn [fst snd sn_name sn_entities sn_enums sn_commons sn_actions].
     rewrite !is_nil_map. reflexivity. }
@@ -2042,12 +2102,15 @@ Definition ent_ok (d : decls) (ns r : str) : bool :=
   if has_sep r then match strip_prefix cedar_prefix r with None => true | Some _ => false end && negb (has_common d r)
   else (is_nil_str ns || negb (has_common d (ns ++ sep ++ r))) && negb (has_common d r)
        && match builtin r with None => true | Some _ => false end.
+(* a built-in name: written with the prefix (then no common type may be called __cedar::name), or free in its scope *)
+Definition bi_ok (d : decls) (ns r : str) : bool :=
+  if sh r then negb (has_common d (cedar_prefix ++ r)) else free d ns r.
 Fixpoint ok_ty (d : decls) (ns : str) (t : sty) : bool :=
   match t with
-  | TyString => free d ns (s_of "String")
-  | TyLong => free d ns (s_of "Long")
-  | TyBool => free d ns (s_of "Bool")
-  | TyExt n => is_ext n && free d ns n
+  | TyString => bi_ok d ns (s_of "String")
+  | TyLong => bi_ok d ns (s_of "Long")
+  | TyBool => bi_ok d ns (s_of "Bool")
+  | TyExt n => is_ext n && bi_ok d ns n
   | TySet e => ok_ty d ns e
   | TyRec fs => (fix go (l : list (str * (sty * bool))) : bool := match l with [] => true | x :: r => ok_ty d ns (fst (snd x)) && go r end) fs
   | TyEnt r => ent_ok d ns r
@@ -2077,6 +2140,20 @@ Proof.
   repeat (apply orb_true_iff in H; destruct H as [H|H]); try discriminate; apply str_eqb_eq in H; subst n; split; reflexivity.
 Qed.
 
+Lemma strip_prefix_app : forall p r, strip_prefix p (p ++ r) = Some r.
+Proof. induction p as [|a p IH]; intros r; [destruct r; reflexivity|]. cbn [app strip_prefix]. rewrite Z.eqb_refl. apply IH. Qed.
+
+Lemma has_sep_cedar : forall r, has_sep (cedar_prefix ++ r) = true.
+Proof. intros r. reflexivity. Qed.
+
+Lemma ref_builtin_wb : forall f d ns r b, bi_ok d ns r = true -> has_sep r = false -> builtin r = Some b ->
+  resolve_type (S f) (nrm_d d) ns (TyRef (write_builtin sh r)) = ROk b.
+Proof.
+  intros f d ns r b Hok Hsep Hb. unfold bi_ok in Hok. unfold write_builtin. destruct (sh r).
+  - change (s_of "__cedar::") with cedar_prefix. cbn [resolve_type]. rewrite has_sep_cedar, strip_prefix_app, Hb. reflexivity.
+  - cbn [app]. apply ref_builtin; assumption.
+Qed.
+
 Lemma fields_nrm : forall (rec rec' : sty -> rres rty) fs,
   (forall x, In x fs -> rec' (nrm (fst (snd x))) = rec (fst (snd x))) ->
   resolve_fields rec' (nrm_fields fs) = resolve_fields rec fs.
@@ -2092,11 +2169,11 @@ Lemma rt_nrm : forall fuel d ns t, commons_ok d -> ok_ty d ns t = true ->
 Proof.
   induction fuel as [|f IH]; intros d ns t Hc Hok; [reflexivity|].
   destruct t as [| | |n|e|fs|r|r].
-  - apply ref_builtin; [exact Hok|reflexivity|reflexivity].
-  - apply ref_builtin; [exact Hok|reflexivity|reflexivity].
-  - apply ref_builtin; [exact Hok|reflexivity|reflexivity].
+  - apply ref_builtin_wb; [exact Hok|reflexivity|reflexivity].
+  - apply ref_builtin_wb; [exact Hok|reflexivity|reflexivity].
+  - apply ref_builtin_wb; [exact Hok|reflexivity|reflexivity].
   - cbn [ok_ty] in Hok. apply andb_true_iff in Hok. destruct Hok as [He Hfr]. destruct (is_ext_inv n He) as [Hs Hb].
-    cbn [nrm]. rewrite (ref_builtin f d ns n (RExt n) Hfr Hs Hb). reflexivity.
+    cbn [nrm]. rewrite (ref_builtin_wb f d ns n (RExt n) Hfr Hs Hb). reflexivity.
   - cbn [nrm resolve_type ok_ty] in *. rewrite (IH d ns e Hc Hok). reflexivity.
   - rewrite nrm_rec, !resolve_type_rec. rewrite ok_ty_rec in Hok. rewrite forallb_forall in Hok.
     rewrite (fields_nrm (resolve_type f d ns) (resolve_type f (nrm_d d) ns) fs); [reflexivity|].
@@ -2163,14 +2240,21 @@ Proof.
     unfold type_ref_path in Hp. rewrite E in Hp. exact Hp.
 Qed.
 
+Lemma bi_ok_path : forall d ns r, bi_ok d ns r = true -> has_common d (type_ref_path d ns (write_builtin sh r)) = false.
+Proof.
+  intros d ns r H. unfold bi_ok in H. unfold write_builtin. destruct (sh r).
+  - change (s_of "__cedar::") with cedar_prefix. unfold type_ref_path. rewrite has_sep_cedar. apply negb_true_iff in H. exact H.
+  - cbn [app]. apply nocommon_path. apply free_nocommon. exact H.
+Qed.
+
 Lemma refs_nrm : forall d ns t, ok_ty d ns t = true ->
   filter (has_common d) (map (type_ref_path d ns) (collect_refs (nrm t))) = filter (has_common d) (map (type_ref_path d ns) (collect_refs t)).
 Proof.
   intros d ns. induction t as [| | |n|e IHe|fs IHfs|r|r] using sty_ind'; intros Hok; cbn [nrm collect_refs map filter ok_ty] in *; try reflexivity.
-  - rewrite (nocommon_path _ _ _ (free_nocommon _ _ _ Hok)). reflexivity.
-  - rewrite (nocommon_path _ _ _ (free_nocommon _ _ _ Hok)). reflexivity.
-  - rewrite (nocommon_path _ _ _ (free_nocommon _ _ _ Hok)). reflexivity.
-  - apply andb_true_iff in Hok. destruct Hok as [_ Hok]. rewrite (nocommon_path _ _ _ (free_nocommon _ _ _ Hok)). reflexivity.
+  - rewrite (bi_ok_path _ _ _ Hok). reflexivity.
+  - rewrite (bi_ok_path _ _ _ Hok). reflexivity.
+  - rewrite (bi_ok_path _ _ _ Hok). reflexivity.
+  - apply andb_true_iff in Hok. destruct Hok as [_ Hok]. rewrite (bi_ok_path _ _ _ Hok). reflexivity.
   - exact (IHe Hok).
   - change (filter (has_common d) (map (type_ref_path d ns) (collect_refs (nrm (TyRec fs))))
             = filter (has_common d) (map (type_ref_path d ns) (collect_refs (TyRec fs)))).
@@ -2306,31 +2390,34 @@ Proof.
   rewrite He', Ha'. reflexivity.
 Qed.
 
-Theorem resolve_norm_text : forall s, resolve_same_ok (erase s) = true ->
-  resolve_schema (erase (norm_text s)) = resolve_schema (erase s).
-Proof. intros s H. rewrite erase_norm_text. apply resolve_nrm_s. exact H. Qed.
+End ResolveSh.
 
-(* finding F26: a declared type named like a builtin captures the bare builtin name of the printed text *)
+Theorem resolve_norm_text : forall s, resolve_same_ok (shadowed_builtins s) (erase s) = true ->
+  resolve_schema (erase (norm_text s)) = resolve_schema (erase s).
+Proof. intros s H. unfold norm_text. rewrite erase_norm_text_sh. apply resolve_nrm_s. exact H. Qed.
+
+(* the former finding F26: a declared type named like a builtin used to capture the bare builtin name of the printed text;
+   the printer now writes __cedar::String, and resolution does not see the difference *)
 Definition f26_schema : x_schema :=
   [([], {| xs_annots := [];
            xs_entities := [(s_of "A", {| xe_annots := []; xe_parents := []; xe_shape := Some [(s_of "x", (XString, false, []))]; xe_tags := None |});
                            (s_of "String", {| xe_annots := []; xe_parents := []; xe_shape := None; xe_tags := None |})];
            xs_enums := []; xs_commons := []; xs_actions := [] |})].
-Example f26_capture :
-  wf_text f26_schema = true /\ resolve_same_ok (erase f26_schema) = false
+Example f26_repaired :
+  wf_text f26_schema = true
+  /\ parse_schema (print_schema f26_schema)
+     = SOk [([], {| xs_annots := [];
+                    xs_entities := [(s_of "A", {| xe_annots := []; xe_parents := [];
+                                                  xe_shape := Some [(s_of "x", (XRef (s_of "__cedar::String"), false, []))]; xe_tags := None |});
+                                    (s_of "String", {| xe_annots := []; xe_parents := []; xe_shape := None; xe_tags := None |})];
+                    xs_enums := []; xs_commons := []; xs_actions := [] |})]
   /\ resolve_schema (erase f26_schema)
      = VOk {| rs_entities := [(s_of "A", ([], Some [(s_of "x", (RString, false))], None)); (s_of "String", ([], None, None))]; rs_actions := [] |}
-  /\ resolve_schema (erase (norm_text f26_schema))
-     = VOk {| rs_entities := [(s_of "A", ([], Some [(s_of "x", (REnt (s_of "String"), false))], None)); (s_of "String", ([], None, None))]; rs_actions := [] |}.
+  /\ resolve_schema (erase (norm_text f26_schema)) = resolve_schema (erase f26_schema).
 Proof. repeat split; vm_compute; reflexivity. Qed.
 
-
-(* ---- a syntactic sufficient condition: no declared type is named like a builtin that the printer writes ---- *)
-Definition printed_builtins : list string := ["String"; "Long"; "Bool"; "ipaddr"; "decimal"; "datetime"; "duration"]%string.
-Definition is_printed_builtin (n : str) : bool := existsb (fun b => str_eqb (s_of b) n) printed_builtins.
+(* ---- from the syntax: wf_text and "no EntityTypeRef, known extension types" are enough ---- *)
 Definition declared_names (n : x_ns) : list str := map fst (xs_entities n) ++ map fst (xs_enums n) ++ map fst (xs_commons n).
-Definition no_builtin_names (s : x_schema) : bool :=
-  forallb (fun kv : str * x_ns => forallb (fun name => negb (is_printed_builtin name)) (declared_names (snd kv))) s.
 (* no EntityTypeRef (the text parser never builds one), and only the four known extension types *)
 Fixpoint plain_ty (t : xty) : bool :=
   match t with
@@ -2376,20 +2463,16 @@ Proof.
   rewrite forallb_forall in Hall. intros Hin. specialize (Hall 58 Hin). discriminate.
 Qed.
 
-Lemma printed_builtin_colon_free : forall r, is_printed_builtin r = true -> colon_free r.
+Lemma builtin_colon_free : forall r, is_builtin_name r = true -> colon_free r.
 Proof.
-  intros r H. unfold is_printed_builtin, printed_builtins in H. cbn [existsb] in H.
-  repeat (apply orb_true_iff in H; destruct H as [H|H]); try discriminate; apply str_eqb_eq in H; subst r; intros Hin; cbn in Hin;
+  intros r H. apply (builtin_name_cases r colon_free H); intros Hin; cbn in Hin;
     repeat (destruct Hin as [Hin|Hin]; [discriminate|]); exact Hin.
 Qed.
 
-(* a name that is neither a printed builtin ... *)
-Lemma qualify_not_builtin : forall nsn name ns r, colon_free name -> is_printed_builtin name = false -> is_printed_builtin r = true ->
+Lemma qualify_ne : forall nsn name ns r, colon_free name -> colon_free r -> name <> r ->
   qualify nsn name <> r /\ qualify nsn name <> ns ++ sep ++ r.
 Proof.
-  intros nsn name ns r Hname Hnb Hr. pose proof (printed_builtin_colon_free r Hr) as Hrc.
-  assert (Hne : name <> r) by (intros ->; rewrite Hr in Hnb; discriminate).
-  destruct nsn as [|c nsn]; cbn [qualify]; split.
+  intros nsn name ns r Hname Hrc Hne. destruct nsn as [|c nsn]; cbn [qualify]; split.
   - exact Hne.
   - intros E. apply Hname. rewrite E. apply in_or_app. right. left. reflexivity.
   - intros E. apply Hrc. rewrite <- E. apply in_or_app. right. left. reflexivity.
@@ -2435,51 +2518,98 @@ Proof.
   apply word_colon_free. apply (valid_ident_word name Hv).
 Qed.
 
-Lemma free_builtin : forall s d ns r, wf_text s = true -> no_builtin_names s = true -> register (erase s) = Some d ->
-  is_printed_builtin r = true -> free d ns r = true.
+Lemma existsb_key_in : forall (A : Type) r (l : list (str * A)), In r (map fst l) -> existsb (fun kv => str_eqb (fst kv) r) l = true.
 Proof.
-  intros s d ns r Hwf Hnb Hreg Hr.
+  intros A r l H. apply in_map_iff in H. destruct H as (kv & <- & Hkv). apply existsb_exists. exists kv. split; [exact Hkv|apply str_eqb_refl].
+Qed.
+
+Lemma ns_declares_in : forall r n, In r (declared_names n) -> ns_declares r n = true.
+Proof.
+  intros r n H. unfold declared_names in H. unfold ns_declares. apply in_app_or in H. destruct H as [H|H]; [|apply in_app_or in H; destruct H as [H|H]].
+  - rewrite (existsb_key_in _ r _ H). reflexivity.
+  - rewrite (existsb_key_in _ r _ H). rewrite orb_true_r. reflexivity.
+  - rewrite (existsb_key_in _ r _ H). rewrite orb_true_r. reflexivity.
+Qed.
+
+(* a built-in name that the printer does not prefix is not declared anywhere *)
+Lemma unshadowed_ne : forall s r kv name, shadowed_builtins s r = false -> is_builtin_name r = true ->
+  In kv s -> In name (declared_names (snd kv)) -> name <> r.
+Proof.
+  intros s r kv name Hsh Hb Hkv Hname ->. unfold shadowed_builtins in Hsh. fold (is_builtin_name r) in Hsh. rewrite Hb in Hsh. cbn [andb] in Hsh.
+  assert (H : existsb (fun kv0 : str * x_ns => ns_declares r (snd kv0)) s = true).
+  { apply existsb_exists. exists kv. split; [exact Hkv|apply ns_declares_in; exact Hname]. }
+  rewrite H in Hsh. discriminate.
+Qed.
+
+Lemma free_unshadowed : forall s d ns r, wf_text s = true -> register (erase s) = Some d ->
+  is_builtin_name r = true -> shadowed_builtins s r = false -> free d ns r = true.
+Proof.
+  intros s d ns r Hwf Hreg Hr Hsh. pose proof (builtin_colon_free r Hr) as Hrc.
   assert (Hno : forall x, (x = r \/ x = ns ++ sep ++ r) -> is_entity d x = false /\ has_common d x = false).
   { intros x Hx.
     assert (H : ~ (is_entity d x = true \/ has_common d x = true)).
     { intros H. destruct (decl_origin s d x Hreg H) as (kv & name & Hkv & Hname & E).
       pose proof (declared_ident s kv name Hwf Hkv Hname) as Hcf.
-      unfold no_builtin_names in Hnb. rewrite forallb_forall in Hnb. specialize (Hnb kv Hkv). rewrite forallb_forall in Hnb.
-      specialize (Hnb name Hname). apply negb_true_iff in Hnb.
-      destruct (qualify_not_builtin (fst kv) name ns r Hcf Hnb Hr) as [N1 N2]. destruct Hx as [-> | ->]; [apply N1|apply N2]; symmetry; exact E. }
+      pose proof (unshadowed_ne s r kv name Hsh Hr Hkv Hname) as Hne.
+      destruct (qualify_ne (fst kv) name ns r Hcf Hrc Hne) as [N1 N2]. destruct Hx as [-> | ->]; [apply N1|apply N2]; symmetry; exact E. }
     destruct (is_entity d x), (has_common d x); try tauto; exfalso; apply H; tauto. }
   destruct (Hno r (or_introl eq_refl)) as [E1 C1]. destruct (Hno (ns ++ sep ++ r) (or_intror eq_refl)) as [E2 C2].
   unfold free. rewrite E1, C1, E2, C2. destruct (is_nil_str ns); reflexivity.
 Qed.
 
-Lemma is_ext_printed : forall n, is_ext n = true -> is_printed_builtin n = true.
+(* no common type is called __cedar::name: that would need a namespace named __cedar *)
+Lemma no_cedar_common : forall s d r, wf_text s = true -> register (erase s) = Some d -> is_builtin_name r = true ->
+  has_common d (cedar_prefix ++ r) = false.
+Proof.
+  intros s d r Hwf Hreg Hr. pose proof (builtin_colon_free r Hr) as Hrc.
+  destruct (has_common d (cedar_prefix ++ r)) eqn:E; [|reflexivity]. exfalso.
+  destruct (decl_origin s d _ Hreg (or_intror E)) as (kv & name & Hkv & Hname & Eq).
+  pose proof (declared_ident s kv name Hwf Hkv Hname) as Hcf.
+  change cedar_prefix with (s_of "__cedar" ++ sep) in Eq. rewrite <- app_assoc in Eq.
+  destruct (fst kv) as [|c nsn] eqn:Ens; cbn [qualify] in Eq.
+  - apply Hcf. rewrite <- Eq. apply in_or_app. right. left. reflexivity.
+  - pose proof (suffix_colon _ _ _ _ Hrc Hcf Eq) as En. subst name. apply app_inv_tail in Eq.
+    destruct (wf_text_in s kv Hwf Hkv) as (_ & _ & Hp). rewrite Ens in Hp. specialize (Hp ltac:(discriminate)). rewrite <- Eq in Hp. discriminate.
+Qed.
+
+Lemma bi_ok_builtin : forall s d ns r, wf_text s = true -> register (erase s) = Some d -> is_builtin_name r = true ->
+  bi_ok (shadowed_builtins s) d ns r = true.
+Proof.
+  intros s d ns r Hwf Hreg Hr. unfold bi_ok. destruct (shadowed_builtins s r) eqn:E.
+  - rewrite (no_cedar_common s d r Hwf Hreg Hr). reflexivity.
+  - apply (free_unshadowed s); assumption.
+Qed.
+
+Lemma is_ext_builtin : forall n, is_ext n = true -> is_builtin_name n = true.
 Proof.
   intros n H. unfold is_ext in H. cbn [existsb] in H.
   repeat (apply orb_true_iff in H; destruct H as [H|H]); try discriminate; apply str_eqb_eq in H; subst n; reflexivity.
 Qed.
 
-Lemma plain_ok_ty : forall s d ns, wf_text s = true -> no_builtin_names s = true -> register (erase s) = Some d ->
-  forall t, plain_ty t = true -> ok_ty d ns (erase_ty t) = true.
+Lemma plain_ok_ty : forall s d ns, wf_text s = true -> register (erase s) = Some d ->
+  forall t, plain_ty t = true -> ok_ty (shadowed_builtins s) d ns (erase_ty t) = true.
 Proof.
-  intros s d ns Hwf Hnb Hreg. induction t as [| | |n|e IHe|fs IHfs|r|r] using xty_ind'; intros Hp; try discriminate; try reflexivity.
-  - apply (free_builtin s); try assumption; reflexivity.
-  - apply (free_builtin s); try assumption; reflexivity.
-  - apply (free_builtin s); try assumption; reflexivity.
-  - cbn [plain_ty erase_ty ok_ty] in *. rewrite Hp. apply (free_builtin s); try assumption. apply is_ext_printed. exact Hp.
+  intros s d ns Hwf Hreg. induction t as [| | |n|e IHe|fs IHfs|r|r] using xty_ind'; intros Hp; try discriminate; try reflexivity.
+  - apply (bi_ok_builtin s); try assumption; reflexivity.
+  - apply (bi_ok_builtin s); try assumption; reflexivity.
+  - apply (bi_ok_builtin s); try assumption; reflexivity.
+  - cbn [plain_ty erase_ty ok_ty] in *. rewrite Hp. apply (bi_ok_builtin s); try assumption. apply is_ext_builtin. exact Hp.
   - exact (IHe Hp).
   - rewrite erase_ty_rec, ok_ty_rec. rewrite plain_ty_rec in Hp. unfold erase_fields. rewrite forallb_forall in *.
     intros x Hx. apply in_map_iff in Hx. destruct Hx as (y & <- & Hy). cbn [fst snd]. rewrite Forall_forall in IHfs. apply (IHfs y Hy). apply Hp. exact Hy.
 Qed.
 
-Theorem resolve_norm_text_names : forall s, wf_text s = true -> no_builtin_names s = true -> plain_schema s = true ->
+(* Part 2, final form: with the printer writing __cedar::Name for shadowed built-in names, no hypothesis on the declared
+   names is left *)
+Theorem resolve_norm_text_names' : forall s, wf_text s = true -> plain_schema s = true ->
   resolve_schema (erase (norm_text s)) = resolve_schema (erase s).
 Proof.
-  intros s Hwf Hnb Hpl. apply resolve_norm_text. unfold resolve_same_ok. destruct (register (erase s)) as [d|] eqn:Hreg; [|reflexivity].
+  intros s Hwf Hpl. apply resolve_norm_text. unfold resolve_same_ok. destruct (register (erase s)) as [d|] eqn:Hreg; [|reflexivity].
   unfold erase. apply forallb_forall. intros ns Hns. apply in_map_iff in Hns. destruct Hns as ([name n] & <- & Hkv).
   unfold plain_schema in Hpl. rewrite forallb_forall in Hpl. specialize (Hpl _ Hkv). cbn [snd] in Hpl. unfold plain_ns in Hpl.
   apply andb_true_iff in Hpl. destruct Hpl as [Hpl Hpa]. apply andb_true_iff in Hpl. destruct Hpl as [Hpe Hpc].
   rewrite forallb_forall in Hpe, Hpc, Hpa.
-  pose proof (plain_ok_ty s d name Hwf Hnb Hreg) as Hok.
+  pose proof (plain_ok_ty s d name Hwf Hreg) as Hok.
   unfold ok_ns, erase_ns. cbn [fst snd sn_name sn_entities sn_commons sn_actions]. repeat (apply andb_true_iff; split); apply forallb_forall; intros x Hx;
     apply in_map_iff in Hx; destruct Hx as (y & <- & Hy).
   - specialize (Hpe y Hy). apply andb_true_iff in Hpe. destruct Hpe as [Hs Ht]. unfold ok_entity. cbn [se_shape se_tags].
@@ -2491,12 +2621,29 @@ Proof.
     destruct (xa_context ap) as [t|]; [|reflexivity]. cbn [option_map opt_plain] in *. apply Hok. exact Hpa.
 Qed.
 
-Example f26_names : no_builtin_names f26_schema = false /\ plain_schema f26_schema = true.
-Proof. split; vm_compute; reflexivity. Qed.
+(* the earlier statement, kept for reference: its extra hypothesis is no longer needed *)
+Definition no_builtin_names (s : x_schema) : bool :=
+  forallb (fun kv : str * x_ns => forallb (fun name => negb (is_builtin_name name)) (declared_names (snd kv))) s.
+Corollary resolve_norm_text_names : forall s, wf_text s = true -> no_builtin_names s = true -> plain_schema s = true ->
+  resolve_schema (erase (norm_text s)) = resolve_schema (erase s).
+Proof. intros s Hwf _ Hpl. apply resolve_norm_text_names'; assumption. Qed.
+
+(* a shadowed built-in in a NAMESPACED schema: NS1 declares `String`, NS2 uses the built-in *)
+Definition f26_ns_schema : x_schema :=
+  [(s_of "NS1", {| xs_annots := []; xs_entities := [(s_of "String", {| xe_annots := []; xe_parents := []; xe_shape := None; xe_tags := None |})];
+                   xs_enums := []; xs_commons := []; xs_actions := [] |});
+   (s_of "NS2", {| xs_annots := []; xs_entities := []; xs_enums := [];
+                   xs_commons := [(s_of "T", {| xc_annots := []; xc_type := XSet XString |})]; xs_actions := [] |})].
+Example f26_ns_prefixed :
+  wf_text f26_ns_schema = true /\ plain_schema f26_ns_schema = true
+  /\ parse_schema (print_schema f26_ns_schema) = SOk (norm_text f26_ns_schema)
+  /\ xs_commons (snd (nth 1 (norm_text f26_ns_schema) ([], empty_ns)))
+     = [(s_of "T", {| xc_annots := []; xc_type := XSet (XRef (s_of "__cedar::String")) |})].
+Proof. repeat split; vm_compute; reflexivity. Qed.
 
 Print Assumptions parse_print_schema.
 Print Assumptions norm_text_idempotent.
 Print Assumptions second_text_rendering.
 Print Assumptions wf_text_wf_schema.
 Print Assumptions resolve_norm_text.
-Print Assumptions resolve_norm_text_names.
+Print Assumptions resolve_norm_text_names'.
